@@ -7,373 +7,741 @@ open Conform
 
 theorem conforms_v18_Abs : entryOK ("v17._Abs", Generated.Ctors.v17.f_abs, Generated.Schemas.v17.s_Abs_13) = true := Generated.Conforms.v17.conforms_v17_Abs
 
+theorem slots_v18_Abs : slotOK ("v17._Abs", Generated.Ctors.v17.f_abs, Generated.Schemas.v17.s_Abs_13) = true := Generated.Conforms.v17.slots_v17_Abs
+
 theorem conforms_v18_Acos : entryOK ("v17._Acos", Generated.Ctors.v17.f_acos, Generated.Schemas.v17.s_Acos_7) = true := Generated.Conforms.v17.conforms_v17_Acos
+
+theorem slots_v18_Acos : slotOK ("v17._Acos", Generated.Ctors.v17.f_acos, Generated.Schemas.v17.s_Acos_7) = true := Generated.Conforms.v17.slots_v17_Acos
 
 theorem conforms_v18_Acosh : entryOK ("v17._Acosh", Generated.Ctors.v17.f_acosh, Generated.Schemas.v17.s_Acosh_9) = true := Generated.Conforms.v17.conforms_v17_Acosh
 
+theorem slots_v18_Acosh : slotOK ("v17._Acosh", Generated.Ctors.v17.f_acosh, Generated.Schemas.v17.s_Acosh_9) = true := Generated.Conforms.v17.slots_v17_Acosh
+
 theorem conforms_v18_Add : entryOK ("v17._Add", Generated.Ctors.v17.f_add, Generated.Schemas.v17.s_Add_14) = true := Generated.Conforms.v17.conforms_v17_Add
+
+theorem slots_v18_Add : slotOK ("v17._Add", Generated.Ctors.v17.f_add, Generated.Schemas.v17.s_Add_14) = true := Generated.Conforms.v17.slots_v17_Add
 
 theorem conforms_v18_And : entryOK ("v17._And", Generated.Ctors.v17.f_and_, Generated.Schemas.v17.s_And_7) = true := Generated.Conforms.v17.conforms_v17_And
 
+theorem slots_v18_And : slotOK ("v17._And", Generated.Ctors.v17.f_and_, Generated.Schemas.v17.s_And_7) = true := Generated.Conforms.v17.slots_v17_And
+
 theorem conforms_v18_ArgMax : entryOK ("v17._ArgMax", Generated.Ctors.v17.f_arg_max, Generated.Schemas.v17.s_ArgMax_13) = true := Generated.Conforms.v17.conforms_v17_ArgMax
+
+theorem slots_v18_ArgMax : slotOK ("v17._ArgMax", Generated.Ctors.v17.f_arg_max, Generated.Schemas.v17.s_ArgMax_13) = true := Generated.Conforms.v17.slots_v17_ArgMax
 
 theorem conforms_v18_ArgMin : entryOK ("v17._ArgMin", Generated.Ctors.v17.f_arg_min, Generated.Schemas.v17.s_ArgMin_13) = true := Generated.Conforms.v17.conforms_v17_ArgMin
 
+theorem slots_v18_ArgMin : slotOK ("v17._ArgMin", Generated.Ctors.v17.f_arg_min, Generated.Schemas.v17.s_ArgMin_13) = true := Generated.Conforms.v17.slots_v17_ArgMin
+
 theorem conforms_v18_Asin : entryOK ("v17._Asin", Generated.Ctors.v17.f_asin, Generated.Schemas.v17.s_Asin_7) = true := Generated.Conforms.v17.conforms_v17_Asin
+
+theorem slots_v18_Asin : slotOK ("v17._Asin", Generated.Ctors.v17.f_asin, Generated.Schemas.v17.s_Asin_7) = true := Generated.Conforms.v17.slots_v17_Asin
 
 theorem conforms_v18_Asinh : entryOK ("v17._Asinh", Generated.Ctors.v17.f_asinh, Generated.Schemas.v17.s_Asinh_9) = true := Generated.Conforms.v17.conforms_v17_Asinh
 
+theorem slots_v18_Asinh : slotOK ("v17._Asinh", Generated.Ctors.v17.f_asinh, Generated.Schemas.v17.s_Asinh_9) = true := Generated.Conforms.v17.slots_v17_Asinh
+
 theorem conforms_v18_Atan : entryOK ("v17._Atan", Generated.Ctors.v17.f_atan, Generated.Schemas.v17.s_Atan_7) = true := Generated.Conforms.v17.conforms_v17_Atan
+
+theorem slots_v18_Atan : slotOK ("v17._Atan", Generated.Ctors.v17.f_atan, Generated.Schemas.v17.s_Atan_7) = true := Generated.Conforms.v17.slots_v17_Atan
 
 theorem conforms_v18_Atanh : entryOK ("v17._Atanh", Generated.Ctors.v17.f_atanh, Generated.Schemas.v17.s_Atanh_9) = true := Generated.Conforms.v17.conforms_v17_Atanh
 
+theorem slots_v18_Atanh : slotOK ("v17._Atanh", Generated.Ctors.v17.f_atanh, Generated.Schemas.v17.s_Atanh_9) = true := Generated.Conforms.v17.slots_v17_Atanh
+
 theorem conforms_v18_AveragePool : entryOK ("v17._AveragePool", Generated.Ctors.v17.f_average_pool, Generated.Schemas.v17.s_AveragePool_11) = true := Generated.Conforms.v17.conforms_v17_AveragePool
+
+theorem slots_v18_AveragePool : slotOK ("v17._AveragePool", Generated.Ctors.v17.f_average_pool, Generated.Schemas.v17.s_AveragePool_11) = true := Generated.Conforms.v17.slots_v17_AveragePool
 
 theorem conforms_v18_BatchNormalization : entryOK ("v17._BatchNormalization", Generated.Ctors.v17.f_batch_normalization, Generated.Schemas.v17.s_BatchNormalization_15) = true := Generated.Conforms.v17.conforms_v17_BatchNormalization
 
+theorem slots_v18_BatchNormalization : slotOK ("v17._BatchNormalization", Generated.Ctors.v17.f_batch_normalization, Generated.Schemas.v17.s_BatchNormalization_15) = true := Generated.Conforms.v17.slots_v17_BatchNormalization
+
 theorem conforms_v18_Bernoulli : entryOK ("v17._Bernoulli", Generated.Ctors.v17.f_bernoulli, Generated.Schemas.v17.s_Bernoulli_15) = true := Generated.Conforms.v17.conforms_v17_Bernoulli
+
+theorem slots_v18_Bernoulli : slotOK ("v17._Bernoulli", Generated.Ctors.v17.f_bernoulli, Generated.Schemas.v17.s_Bernoulli_15) = true := Generated.Conforms.v17.slots_v17_Bernoulli
 
 theorem conforms_v18_BitShift : entryOK ("v17._BitShift", Generated.Ctors.v17.f_bit_shift, Generated.Schemas.v17.s_BitShift_11) = true := Generated.Conforms.v17.conforms_v17_BitShift
 
+theorem slots_v18_BitShift : slotOK ("v17._BitShift", Generated.Ctors.v17.f_bit_shift, Generated.Schemas.v17.s_BitShift_11) = true := Generated.Conforms.v17.slots_v17_BitShift
+
 theorem conforms_v18_BitwiseAnd : entryOK ("v18._BitwiseAnd", Generated.Ctors.v18.f_bitwise_and, Generated.Schemas.v18.s_BitwiseAnd_18) = true := by decide +kernel
+
+theorem slots_v18_BitwiseAnd : slotOK ("v18._BitwiseAnd", Generated.Ctors.v18.f_bitwise_and, Generated.Schemas.v18.s_BitwiseAnd_18) = true := by decide +kernel
 
 theorem conforms_v18_BitwiseNot : entryOK ("v18._BitwiseNot", Generated.Ctors.v18.f_bitwise_not, Generated.Schemas.v18.s_BitwiseNot_18) = true := by decide +kernel
 
+theorem slots_v18_BitwiseNot : slotOK ("v18._BitwiseNot", Generated.Ctors.v18.f_bitwise_not, Generated.Schemas.v18.s_BitwiseNot_18) = true := by decide +kernel
+
 theorem conforms_v18_BitwiseOr : entryOK ("v18._BitwiseOr", Generated.Ctors.v18.f_bitwise_or, Generated.Schemas.v18.s_BitwiseOr_18) = true := by decide +kernel
+
+theorem slots_v18_BitwiseOr : slotOK ("v18._BitwiseOr", Generated.Ctors.v18.f_bitwise_or, Generated.Schemas.v18.s_BitwiseOr_18) = true := by decide +kernel
 
 theorem conforms_v18_BitwiseXor : entryOK ("v18._BitwiseXor", Generated.Ctors.v18.f_bitwise_xor, Generated.Schemas.v18.s_BitwiseXor_18) = true := by decide +kernel
 
+theorem slots_v18_BitwiseXor : slotOK ("v18._BitwiseXor", Generated.Ctors.v18.f_bitwise_xor, Generated.Schemas.v18.s_BitwiseXor_18) = true := by decide +kernel
+
 theorem conforms_v18_BlackmanWindow : entryOK ("v17._BlackmanWindow", Generated.Ctors.v17.f_blackman_window, Generated.Schemas.v17.s_BlackmanWindow_17) = true := Generated.Conforms.v17.conforms_v17_BlackmanWindow
+
+theorem slots_v18_BlackmanWindow : slotOK ("v17._BlackmanWindow", Generated.Ctors.v17.f_blackman_window, Generated.Schemas.v17.s_BlackmanWindow_17) = true := Generated.Conforms.v17.slots_v17_BlackmanWindow
 
 theorem conforms_v18_Cast : entryOK ("v17._Cast", Generated.Ctors.v17.f_cast, Generated.Schemas.v17.s_Cast_13) = true := Generated.Conforms.v17.conforms_v17_Cast
 
+theorem slots_v18_Cast : slotOK ("v17._Cast", Generated.Ctors.v17.f_cast, Generated.Schemas.v17.s_Cast_13) = true := Generated.Conforms.v17.slots_v17_Cast
+
 theorem conforms_v18_CastLike : entryOK ("v17._CastLike", Generated.Ctors.v17.f_cast_like, Generated.Schemas.v17.s_CastLike_15) = true := Generated.Conforms.v17.conforms_v17_CastLike
+
+theorem slots_v18_CastLike : slotOK ("v17._CastLike", Generated.Ctors.v17.f_cast_like, Generated.Schemas.v17.s_CastLike_15) = true := Generated.Conforms.v17.slots_v17_CastLike
 
 theorem conforms_v18_Ceil : entryOK ("v17._Ceil", Generated.Ctors.v17.f_ceil, Generated.Schemas.v17.s_Ceil_13) = true := Generated.Conforms.v17.conforms_v17_Ceil
 
+theorem slots_v18_Ceil : slotOK ("v17._Ceil", Generated.Ctors.v17.f_ceil, Generated.Schemas.v17.s_Ceil_13) = true := Generated.Conforms.v17.slots_v17_Ceil
+
 theorem conforms_v18_Celu : entryOK ("v17._Celu", Generated.Ctors.v17.f_celu, Generated.Schemas.v17.s_Celu_12) = true := Generated.Conforms.v17.conforms_v17_Celu
+
+theorem slots_v18_Celu : slotOK ("v17._Celu", Generated.Ctors.v17.f_celu, Generated.Schemas.v17.s_Celu_12) = true := Generated.Conforms.v17.slots_v17_Celu
 
 theorem conforms_v18_CenterCropPad : entryOK ("v18._CenterCropPad", Generated.Ctors.v18.f_center_crop_pad, Generated.Schemas.v18.s_CenterCropPad_18) = true := by decide +kernel
 
+theorem slots_v18_CenterCropPad : slotOK ("v18._CenterCropPad", Generated.Ctors.v18.f_center_crop_pad, Generated.Schemas.v18.s_CenterCropPad_18) = true := by decide +kernel
+
 theorem conforms_v18_Clip : entryOK ("v17._Clip", Generated.Ctors.v17.f_clip, Generated.Schemas.v17.s_Clip_13) = true := Generated.Conforms.v17.conforms_v17_Clip
+
+theorem slots_v18_Clip : slotOK ("v17._Clip", Generated.Ctors.v17.f_clip, Generated.Schemas.v17.s_Clip_13) = true := Generated.Conforms.v17.slots_v17_Clip
 
 theorem conforms_v18_Col2Im : entryOK ("v18._Col2Im", Generated.Ctors.v18.f_col2_im, Generated.Schemas.v18.s_Col2Im_18) = true := by decide +kernel
 
+theorem slots_v18_Col2Im : slotOK ("v18._Col2Im", Generated.Ctors.v18.f_col2_im, Generated.Schemas.v18.s_Col2Im_18) = true := by decide +kernel
+
 theorem conforms_v18_Compress : entryOK ("v17._Compress", Generated.Ctors.v17.f_compress, Generated.Schemas.v17.s_Compress_11) = true := Generated.Conforms.v17.conforms_v17_Compress
+
+theorem slots_v18_Compress : slotOK ("v17._Compress", Generated.Ctors.v17.f_compress, Generated.Schemas.v17.s_Compress_11) = true := Generated.Conforms.v17.slots_v17_Compress
 
 theorem conforms_v18_Concat : entryOK ("v17._Concat", Generated.Ctors.v17.f_concat, Generated.Schemas.v17.s_Concat_13) = true := Generated.Conforms.v17.conforms_v17_Concat
 
+theorem slots_v18_Concat : slotOK ("v17._Concat", Generated.Ctors.v17.f_concat, Generated.Schemas.v17.s_Concat_13) = true := Generated.Conforms.v17.slots_v17_Concat
+
 theorem conforms_v18_ConcatFromSequence : entryOK ("v17._ConcatFromSequence", Generated.Ctors.v17.f_concat_from_sequence, Generated.Schemas.v17.s_ConcatFromSequence_11) = true := Generated.Conforms.v17.conforms_v17_ConcatFromSequence
+
+theorem slots_v18_ConcatFromSequence : slotOK ("v17._ConcatFromSequence", Generated.Ctors.v17.f_concat_from_sequence, Generated.Schemas.v17.s_ConcatFromSequence_11) = true := Generated.Conforms.v17.slots_v17_ConcatFromSequence
 
 /-- known deviation (findings.d/C11.json): conforms in everything but the absent attribute(s) -/
 theorem conforms_v18_Constant : entryOKExcept ["sparse_value"] ("v17._Constant", Generated.Ctors.v17.f_constant, Generated.Schemas.v17.s_Constant_13) = true := Generated.Conforms.v17.conforms_v17_Constant
 
+theorem slots_v18_Constant : slotOK ("v17._Constant", Generated.Ctors.v17.f_constant, Generated.Schemas.v17.s_Constant_13) = true := Generated.Conforms.v17.slots_v17_Constant
+
 theorem conforms_v18_ConstantOfShape : entryOK ("v17._ConstantOfShape", Generated.Ctors.v17.f_constant_of_shape, Generated.Schemas.v17.s_ConstantOfShape_9) = true := Generated.Conforms.v17.conforms_v17_ConstantOfShape
+
+theorem slots_v18_ConstantOfShape : slotOK ("v17._ConstantOfShape", Generated.Ctors.v17.f_constant_of_shape, Generated.Schemas.v17.s_ConstantOfShape_9) = true := Generated.Conforms.v17.slots_v17_ConstantOfShape
 
 theorem conforms_v18_Conv : entryOK ("v17._Conv", Generated.Ctors.v17.f_conv, Generated.Schemas.v17.s_Conv_11) = true := Generated.Conforms.v17.conforms_v17_Conv
 
+theorem slots_v18_Conv : slotOK ("v17._Conv", Generated.Ctors.v17.f_conv, Generated.Schemas.v17.s_Conv_11) = true := Generated.Conforms.v17.slots_v17_Conv
+
 theorem conforms_v18_ConvInteger : entryOK ("v17._ConvInteger", Generated.Ctors.v17.f_conv_integer, Generated.Schemas.v17.s_ConvInteger_10) = true := Generated.Conforms.v17.conforms_v17_ConvInteger
+
+theorem slots_v18_ConvInteger : slotOK ("v17._ConvInteger", Generated.Ctors.v17.f_conv_integer, Generated.Schemas.v17.s_ConvInteger_10) = true := Generated.Conforms.v17.slots_v17_ConvInteger
 
 theorem conforms_v18_ConvTranspose : entryOK ("v17._ConvTranspose", Generated.Ctors.v17.f_conv_transpose, Generated.Schemas.v17.s_ConvTranspose_11) = true := Generated.Conforms.v17.conforms_v17_ConvTranspose
 
+theorem slots_v18_ConvTranspose : slotOK ("v17._ConvTranspose", Generated.Ctors.v17.f_conv_transpose, Generated.Schemas.v17.s_ConvTranspose_11) = true := Generated.Conforms.v17.slots_v17_ConvTranspose
+
 theorem conforms_v18_Cos : entryOK ("v17._Cos", Generated.Ctors.v17.f_cos, Generated.Schemas.v17.s_Cos_7) = true := Generated.Conforms.v17.conforms_v17_Cos
+
+theorem slots_v18_Cos : slotOK ("v17._Cos", Generated.Ctors.v17.f_cos, Generated.Schemas.v17.s_Cos_7) = true := Generated.Conforms.v17.slots_v17_Cos
 
 theorem conforms_v18_Cosh : entryOK ("v17._Cosh", Generated.Ctors.v17.f_cosh, Generated.Schemas.v17.s_Cosh_9) = true := Generated.Conforms.v17.conforms_v17_Cosh
 
+theorem slots_v18_Cosh : slotOK ("v17._Cosh", Generated.Ctors.v17.f_cosh, Generated.Schemas.v17.s_Cosh_9) = true := Generated.Conforms.v17.slots_v17_Cosh
+
 theorem conforms_v18_CumSum : entryOK ("v17._CumSum", Generated.Ctors.v17.f_cumsum, Generated.Schemas.v17.s_CumSum_14) = true := Generated.Conforms.v17.conforms_v17_CumSum
+
+theorem slots_v18_CumSum : slotOK ("v17._CumSum", Generated.Ctors.v17.f_cumsum, Generated.Schemas.v17.s_CumSum_14) = true := Generated.Conforms.v17.slots_v17_CumSum
 
 theorem conforms_v18_DFT : entryOK ("v17._DFT", Generated.Ctors.v17.f_dft, Generated.Schemas.v17.s_DFT_17) = true := Generated.Conforms.v17.conforms_v17_DFT
 
+theorem slots_v18_DFT : slotOK ("v17._DFT", Generated.Ctors.v17.f_dft, Generated.Schemas.v17.s_DFT_17) = true := Generated.Conforms.v17.slots_v17_DFT
+
 theorem conforms_v18_DepthToSpace : entryOK ("v17._DepthToSpace", Generated.Ctors.v17.f_depth_to_space, Generated.Schemas.v17.s_DepthToSpace_13) = true := Generated.Conforms.v17.conforms_v17_DepthToSpace
+
+theorem slots_v18_DepthToSpace : slotOK ("v17._DepthToSpace", Generated.Ctors.v17.f_depth_to_space, Generated.Schemas.v17.s_DepthToSpace_13) = true := Generated.Conforms.v17.slots_v17_DepthToSpace
 
 theorem conforms_v18_DequantizeLinear : entryOK ("v17._DequantizeLinear", Generated.Ctors.v17.f_dequantize_linear, Generated.Schemas.v17.s_DequantizeLinear_13) = true := Generated.Conforms.v17.conforms_v17_DequantizeLinear
 
+theorem slots_v18_DequantizeLinear : slotOK ("v17._DequantizeLinear", Generated.Ctors.v17.f_dequantize_linear, Generated.Schemas.v17.s_DequantizeLinear_13) = true := Generated.Conforms.v17.slots_v17_DequantizeLinear
+
 theorem conforms_v18_Det : entryOK ("v17._Det", Generated.Ctors.v17.f_det, Generated.Schemas.v17.s_Det_11) = true := Generated.Conforms.v17.conforms_v17_Det
+
+theorem slots_v18_Det : slotOK ("v17._Det", Generated.Ctors.v17.f_det, Generated.Schemas.v17.s_Det_11) = true := Generated.Conforms.v17.slots_v17_Det
 
 theorem conforms_v18_Div : entryOK ("v17._Div", Generated.Ctors.v17.f_div, Generated.Schemas.v17.s_Div_14) = true := Generated.Conforms.v17.conforms_v17_Div
 
+theorem slots_v18_Div : slotOK ("v17._Div", Generated.Ctors.v17.f_div, Generated.Schemas.v17.s_Div_14) = true := Generated.Conforms.v17.slots_v17_Div
+
 theorem conforms_v18_Dropout : entryOK ("v17._Dropout", Generated.Ctors.v17.f_dropout, Generated.Schemas.v17.s_Dropout_13) = true := Generated.Conforms.v17.conforms_v17_Dropout
+
+theorem slots_v18_Dropout : slotOK ("v17._Dropout", Generated.Ctors.v17.f_dropout, Generated.Schemas.v17.s_Dropout_13) = true := Generated.Conforms.v17.slots_v17_Dropout
 
 theorem conforms_v18_DynamicQuantizeLinear : entryOK ("v17._DynamicQuantizeLinear", Generated.Ctors.v17.f_dynamic_quantize_linear, Generated.Schemas.v17.s_DynamicQuantizeLinear_11) = true := Generated.Conforms.v17.conforms_v17_DynamicQuantizeLinear
 
+theorem slots_v18_DynamicQuantizeLinear : slotOK ("v17._DynamicQuantizeLinear", Generated.Ctors.v17.f_dynamic_quantize_linear, Generated.Schemas.v17.s_DynamicQuantizeLinear_11) = true := Generated.Conforms.v17.slots_v17_DynamicQuantizeLinear
+
 theorem conforms_v18_Einsum : entryOK ("v17._Einsum", Generated.Ctors.v17.f_einsum, Generated.Schemas.v17.s_Einsum_12) = true := Generated.Conforms.v17.conforms_v17_Einsum
+
+theorem slots_v18_Einsum : slotOK ("v17._Einsum", Generated.Ctors.v17.f_einsum, Generated.Schemas.v17.s_Einsum_12) = true := Generated.Conforms.v17.slots_v17_Einsum
 
 theorem conforms_v18_Elu : entryOK ("v17._Elu", Generated.Ctors.v17.f_elu, Generated.Schemas.v17.s_Elu_6) = true := Generated.Conforms.v17.conforms_v17_Elu
 
+theorem slots_v18_Elu : slotOK ("v17._Elu", Generated.Ctors.v17.f_elu, Generated.Schemas.v17.s_Elu_6) = true := Generated.Conforms.v17.slots_v17_Elu
+
 theorem conforms_v18_Equal : entryOK ("v17._Equal", Generated.Ctors.v17.f_equal, Generated.Schemas.v17.s_Equal_13) = true := Generated.Conforms.v17.conforms_v17_Equal
+
+theorem slots_v18_Equal : slotOK ("v17._Equal", Generated.Ctors.v17.f_equal, Generated.Schemas.v17.s_Equal_13) = true := Generated.Conforms.v17.slots_v17_Equal
 
 theorem conforms_v18_Erf : entryOK ("v17._Erf", Generated.Ctors.v17.f_erf, Generated.Schemas.v17.s_Erf_13) = true := Generated.Conforms.v17.conforms_v17_Erf
 
+theorem slots_v18_Erf : slotOK ("v17._Erf", Generated.Ctors.v17.f_erf, Generated.Schemas.v17.s_Erf_13) = true := Generated.Conforms.v17.slots_v17_Erf
+
 theorem conforms_v18_Exp : entryOK ("v17._Exp", Generated.Ctors.v17.f_exp, Generated.Schemas.v17.s_Exp_13) = true := Generated.Conforms.v17.conforms_v17_Exp
+
+theorem slots_v18_Exp : slotOK ("v17._Exp", Generated.Ctors.v17.f_exp, Generated.Schemas.v17.s_Exp_13) = true := Generated.Conforms.v17.slots_v17_Exp
 
 theorem conforms_v18_Expand : entryOK ("v17._Expand", Generated.Ctors.v17.f_expand, Generated.Schemas.v17.s_Expand_13) = true := Generated.Conforms.v17.conforms_v17_Expand
 
+theorem slots_v18_Expand : slotOK ("v17._Expand", Generated.Ctors.v17.f_expand, Generated.Schemas.v17.s_Expand_13) = true := Generated.Conforms.v17.slots_v17_Expand
+
 theorem conforms_v18_EyeLike : entryOK ("v17._EyeLike", Generated.Ctors.v17.f_eye_like, Generated.Schemas.v17.s_EyeLike_9) = true := Generated.Conforms.v17.conforms_v17_EyeLike
+
+theorem slots_v18_EyeLike : slotOK ("v17._EyeLike", Generated.Ctors.v17.f_eye_like, Generated.Schemas.v17.s_EyeLike_9) = true := Generated.Conforms.v17.slots_v17_EyeLike
 
 theorem conforms_v18_Flatten : entryOK ("v17._Flatten", Generated.Ctors.v17.f_flatten, Generated.Schemas.v17.s_Flatten_13) = true := Generated.Conforms.v17.conforms_v17_Flatten
 
+theorem slots_v18_Flatten : slotOK ("v17._Flatten", Generated.Ctors.v17.f_flatten, Generated.Schemas.v17.s_Flatten_13) = true := Generated.Conforms.v17.slots_v17_Flatten
+
 theorem conforms_v18_Floor : entryOK ("v17._Floor", Generated.Ctors.v17.f_floor, Generated.Schemas.v17.s_Floor_13) = true := Generated.Conforms.v17.conforms_v17_Floor
+
+theorem slots_v18_Floor : slotOK ("v17._Floor", Generated.Ctors.v17.f_floor, Generated.Schemas.v17.s_Floor_13) = true := Generated.Conforms.v17.slots_v17_Floor
 
 theorem conforms_v18_GRU : entryOK ("v17._GRU", Generated.Ctors.v17.f_gru, Generated.Schemas.v17.s_GRU_14) = true := Generated.Conforms.v17.conforms_v17_GRU
 
+theorem slots_v18_GRU : slotOK ("v17._GRU", Generated.Ctors.v17.f_gru, Generated.Schemas.v17.s_GRU_14) = true := Generated.Conforms.v17.slots_v17_GRU
+
 theorem conforms_v18_Gather : entryOK ("v17._Gather", Generated.Ctors.v17.f_gather, Generated.Schemas.v17.s_Gather_13) = true := Generated.Conforms.v17.conforms_v17_Gather
+
+theorem slots_v18_Gather : slotOK ("v17._Gather", Generated.Ctors.v17.f_gather, Generated.Schemas.v17.s_Gather_13) = true := Generated.Conforms.v17.slots_v17_Gather
 
 theorem conforms_v18_GatherElements : entryOK ("v17._GatherElements", Generated.Ctors.v17.f_gather_elements, Generated.Schemas.v17.s_GatherElements_13) = true := Generated.Conforms.v17.conforms_v17_GatherElements
 
+theorem slots_v18_GatherElements : slotOK ("v17._GatherElements", Generated.Ctors.v17.f_gather_elements, Generated.Schemas.v17.s_GatherElements_13) = true := Generated.Conforms.v17.slots_v17_GatherElements
+
 theorem conforms_v18_GatherND : entryOK ("v17._GatherND", Generated.Ctors.v17.f_gather_nd, Generated.Schemas.v17.s_GatherND_13) = true := Generated.Conforms.v17.conforms_v17_GatherND
+
+theorem slots_v18_GatherND : slotOK ("v17._GatherND", Generated.Ctors.v17.f_gather_nd, Generated.Schemas.v17.s_GatherND_13) = true := Generated.Conforms.v17.slots_v17_GatherND
 
 theorem conforms_v18_Gemm : entryOK ("v17._Gemm", Generated.Ctors.v17.f_gemm, Generated.Schemas.v17.s_Gemm_13) = true := Generated.Conforms.v17.conforms_v17_Gemm
 
+theorem slots_v18_Gemm : slotOK ("v17._Gemm", Generated.Ctors.v17.f_gemm, Generated.Schemas.v17.s_Gemm_13) = true := Generated.Conforms.v17.slots_v17_Gemm
+
 theorem conforms_v18_GlobalAveragePool : entryOK ("v17._GlobalAveragePool", Generated.Ctors.v17.f_global_average_pool, Generated.Schemas.v17.s_GlobalAveragePool_1) = true := Generated.Conforms.v17.conforms_v17_GlobalAveragePool
+
+theorem slots_v18_GlobalAveragePool : slotOK ("v17._GlobalAveragePool", Generated.Ctors.v17.f_global_average_pool, Generated.Schemas.v17.s_GlobalAveragePool_1) = true := Generated.Conforms.v17.slots_v17_GlobalAveragePool
 
 theorem conforms_v18_GlobalLpPool : entryOK ("v17._GlobalLpPool", Generated.Ctors.v17.f_global_lp_pool, Generated.Schemas.v17.s_GlobalLpPool_2) = true := Generated.Conforms.v17.conforms_v17_GlobalLpPool
 
+theorem slots_v18_GlobalLpPool : slotOK ("v17._GlobalLpPool", Generated.Ctors.v17.f_global_lp_pool, Generated.Schemas.v17.s_GlobalLpPool_2) = true := Generated.Conforms.v17.slots_v17_GlobalLpPool
+
 theorem conforms_v18_GlobalMaxPool : entryOK ("v17._GlobalMaxPool", Generated.Ctors.v17.f_global_max_pool, Generated.Schemas.v17.s_GlobalMaxPool_1) = true := Generated.Conforms.v17.conforms_v17_GlobalMaxPool
+
+theorem slots_v18_GlobalMaxPool : slotOK ("v17._GlobalMaxPool", Generated.Ctors.v17.f_global_max_pool, Generated.Schemas.v17.s_GlobalMaxPool_1) = true := Generated.Conforms.v17.slots_v17_GlobalMaxPool
 
 theorem conforms_v18_Greater : entryOK ("v17._Greater", Generated.Ctors.v17.f_greater, Generated.Schemas.v17.s_Greater_13) = true := Generated.Conforms.v17.conforms_v17_Greater
 
+theorem slots_v18_Greater : slotOK ("v17._Greater", Generated.Ctors.v17.f_greater, Generated.Schemas.v17.s_Greater_13) = true := Generated.Conforms.v17.slots_v17_Greater
+
 theorem conforms_v18_GreaterOrEqual : entryOK ("v17._GreaterOrEqual", Generated.Ctors.v17.f_greater_or_equal, Generated.Schemas.v17.s_GreaterOrEqual_16) = true := Generated.Conforms.v17.conforms_v17_GreaterOrEqual
 
+theorem slots_v18_GreaterOrEqual : slotOK ("v17._GreaterOrEqual", Generated.Ctors.v17.f_greater_or_equal, Generated.Schemas.v17.s_GreaterOrEqual_16) = true := Generated.Conforms.v17.slots_v17_GreaterOrEqual
+
 theorem conforms_v18_GridSample : entryOK ("v17._GridSample", Generated.Ctors.v17.f_grid_sample, Generated.Schemas.v17.s_GridSample_16) = true := Generated.Conforms.v17.conforms_v17_GridSample
+
+theorem slots_v18_GridSample : slotOK ("v17._GridSample", Generated.Ctors.v17.f_grid_sample, Generated.Schemas.v17.s_GridSample_16) = true := Generated.Conforms.v17.slots_v17_GridSample
 
 /-- known deviation (findings.d/C11.json): conforms in everything but the absent attribute(s) -/
 theorem conforms_v18_GroupNormalization : entryOKExcept ["@deprecated"] ("v18._GroupNormalization", Generated.Ctors.v18.f_group_normalization, Generated.Schemas.v18.s_GroupNormalization_18) = true := by decide +kernel
 
+theorem slots_v18_GroupNormalization : slotOK ("v18._GroupNormalization", Generated.Ctors.v18.f_group_normalization, Generated.Schemas.v18.s_GroupNormalization_18) = true := by decide +kernel
+
 theorem conforms_v18_HammingWindow : entryOK ("v17._HammingWindow", Generated.Ctors.v17.f_hamming_window, Generated.Schemas.v17.s_HammingWindow_17) = true := Generated.Conforms.v17.conforms_v17_HammingWindow
+
+theorem slots_v18_HammingWindow : slotOK ("v17._HammingWindow", Generated.Ctors.v17.f_hamming_window, Generated.Schemas.v17.s_HammingWindow_17) = true := Generated.Conforms.v17.slots_v17_HammingWindow
 
 theorem conforms_v18_HannWindow : entryOK ("v17._HannWindow", Generated.Ctors.v17.f_hann_window, Generated.Schemas.v17.s_HannWindow_17) = true := Generated.Conforms.v17.conforms_v17_HannWindow
 
+theorem slots_v18_HannWindow : slotOK ("v17._HannWindow", Generated.Ctors.v17.f_hann_window, Generated.Schemas.v17.s_HannWindow_17) = true := Generated.Conforms.v17.slots_v17_HannWindow
+
 theorem conforms_v18_HardSigmoid : entryOK ("v17._HardSigmoid", Generated.Ctors.v17.f_hard_sigmoid, Generated.Schemas.v17.s_HardSigmoid_6) = true := Generated.Conforms.v17.conforms_v17_HardSigmoid
+
+theorem slots_v18_HardSigmoid : slotOK ("v17._HardSigmoid", Generated.Ctors.v17.f_hard_sigmoid, Generated.Schemas.v17.s_HardSigmoid_6) = true := Generated.Conforms.v17.slots_v17_HardSigmoid
 
 theorem conforms_v18_HardSwish : entryOK ("v17._HardSwish", Generated.Ctors.v17.f_hard_swish, Generated.Schemas.v17.s_HardSwish_14) = true := Generated.Conforms.v17.conforms_v17_HardSwish
 
+theorem slots_v18_HardSwish : slotOK ("v17._HardSwish", Generated.Ctors.v17.f_hard_swish, Generated.Schemas.v17.s_HardSwish_14) = true := Generated.Conforms.v17.slots_v17_HardSwish
+
 theorem conforms_v18_Hardmax : entryOK ("v17._Hardmax", Generated.Ctors.v17.f_hardmax, Generated.Schemas.v17.s_Hardmax_13) = true := Generated.Conforms.v17.conforms_v17_Hardmax
+
+theorem slots_v18_Hardmax : slotOK ("v17._Hardmax", Generated.Ctors.v17.f_hardmax, Generated.Schemas.v17.s_Hardmax_13) = true := Generated.Conforms.v17.slots_v17_Hardmax
 
 theorem conforms_v18_Identity : entryOK ("v17._Identity", Generated.Ctors.v17.f_identity, Generated.Schemas.v17.s_Identity_16) = true := Generated.Conforms.v17.conforms_v17_Identity
 
+theorem slots_v18_Identity : slotOK ("v17._Identity", Generated.Ctors.v17.f_identity, Generated.Schemas.v17.s_Identity_16) = true := Generated.Conforms.v17.slots_v17_Identity
+
 theorem conforms_v18_If : entryOK ("v17._If", Generated.Ctors.v17.f_if_, Generated.Schemas.v17.s_If_16) = true := Generated.Conforms.v17.conforms_v17_If
+
+theorem slots_v18_If : slotOK ("v17._If", Generated.Ctors.v17.f_if_, Generated.Schemas.v17.s_If_16) = true := Generated.Conforms.v17.slots_v17_If
 
 theorem conforms_v18_InstanceNormalization : entryOK ("v17._InstanceNormalization", Generated.Ctors.v17.f_instance_normalization, Generated.Schemas.v17.s_InstanceNormalization_6) = true := Generated.Conforms.v17.conforms_v17_InstanceNormalization
 
+theorem slots_v18_InstanceNormalization : slotOK ("v17._InstanceNormalization", Generated.Ctors.v17.f_instance_normalization, Generated.Schemas.v17.s_InstanceNormalization_6) = true := Generated.Conforms.v17.slots_v17_InstanceNormalization
+
 theorem conforms_v18_IsInf : entryOK ("v17._IsInf", Generated.Ctors.v17.f_isinf, Generated.Schemas.v17.s_IsInf_10) = true := Generated.Conforms.v17.conforms_v17_IsInf
+
+theorem slots_v18_IsInf : slotOK ("v17._IsInf", Generated.Ctors.v17.f_isinf, Generated.Schemas.v17.s_IsInf_10) = true := Generated.Conforms.v17.slots_v17_IsInf
 
 theorem conforms_v18_IsNaN : entryOK ("v17._IsNaN", Generated.Ctors.v17.f_isnan, Generated.Schemas.v17.s_IsNaN_13) = true := Generated.Conforms.v17.conforms_v17_IsNaN
 
+theorem slots_v18_IsNaN : slotOK ("v17._IsNaN", Generated.Ctors.v17.f_isnan, Generated.Schemas.v17.s_IsNaN_13) = true := Generated.Conforms.v17.slots_v17_IsNaN
+
 theorem conforms_v18_LRN : entryOK ("v17._LRN", Generated.Ctors.v17.f_lrn, Generated.Schemas.v17.s_LRN_13) = true := Generated.Conforms.v17.conforms_v17_LRN
+
+theorem slots_v18_LRN : slotOK ("v17._LRN", Generated.Ctors.v17.f_lrn, Generated.Schemas.v17.s_LRN_13) = true := Generated.Conforms.v17.slots_v17_LRN
 
 theorem conforms_v18_LSTM : entryOK ("v17._LSTM", Generated.Ctors.v17.f_lstm, Generated.Schemas.v17.s_LSTM_14) = true := Generated.Conforms.v17.conforms_v17_LSTM
 
+theorem slots_v18_LSTM : slotOK ("v17._LSTM", Generated.Ctors.v17.f_lstm, Generated.Schemas.v17.s_LSTM_14) = true := Generated.Conforms.v17.slots_v17_LSTM
+
 theorem conforms_v18_LayerNormalization : entryOK ("v17._LayerNormalization", Generated.Ctors.v17.f_layer_normalization, Generated.Schemas.v17.s_LayerNormalization_17) = true := Generated.Conforms.v17.conforms_v17_LayerNormalization
+
+theorem slots_v18_LayerNormalization : slotOK ("v17._LayerNormalization", Generated.Ctors.v17.f_layer_normalization, Generated.Schemas.v17.s_LayerNormalization_17) = true := Generated.Conforms.v17.slots_v17_LayerNormalization
 
 theorem conforms_v18_LeakyRelu : entryOK ("v17._LeakyRelu", Generated.Ctors.v17.f_leaky_relu, Generated.Schemas.v17.s_LeakyRelu_16) = true := Generated.Conforms.v17.conforms_v17_LeakyRelu
 
+theorem slots_v18_LeakyRelu : slotOK ("v17._LeakyRelu", Generated.Ctors.v17.f_leaky_relu, Generated.Schemas.v17.s_LeakyRelu_16) = true := Generated.Conforms.v17.slots_v17_LeakyRelu
+
 theorem conforms_v18_Less : entryOK ("v17._Less", Generated.Ctors.v17.f_less, Generated.Schemas.v17.s_Less_13) = true := Generated.Conforms.v17.conforms_v17_Less
+
+theorem slots_v18_Less : slotOK ("v17._Less", Generated.Ctors.v17.f_less, Generated.Schemas.v17.s_Less_13) = true := Generated.Conforms.v17.slots_v17_Less
 
 theorem conforms_v18_LessOrEqual : entryOK ("v17._LessOrEqual", Generated.Ctors.v17.f_less_or_equal, Generated.Schemas.v17.s_LessOrEqual_16) = true := Generated.Conforms.v17.conforms_v17_LessOrEqual
 
+theorem slots_v18_LessOrEqual : slotOK ("v17._LessOrEqual", Generated.Ctors.v17.f_less_or_equal, Generated.Schemas.v17.s_LessOrEqual_16) = true := Generated.Conforms.v17.slots_v17_LessOrEqual
+
 theorem conforms_v18_Log : entryOK ("v17._Log", Generated.Ctors.v17.f_log, Generated.Schemas.v17.s_Log_13) = true := Generated.Conforms.v17.conforms_v17_Log
+
+theorem slots_v18_Log : slotOK ("v17._Log", Generated.Ctors.v17.f_log, Generated.Schemas.v17.s_Log_13) = true := Generated.Conforms.v17.slots_v17_Log
 
 theorem conforms_v18_LogSoftmax : entryOK ("v17._LogSoftmax", Generated.Ctors.v17.f_log_softmax, Generated.Schemas.v17.s_LogSoftmax_13) = true := Generated.Conforms.v17.conforms_v17_LogSoftmax
 
+theorem slots_v18_LogSoftmax : slotOK ("v17._LogSoftmax", Generated.Ctors.v17.f_log_softmax, Generated.Schemas.v17.s_LogSoftmax_13) = true := Generated.Conforms.v17.slots_v17_LogSoftmax
+
 theorem conforms_v18_Loop : entryOK ("v17._Loop", Generated.Ctors.v17.f_loop, Generated.Schemas.v17.s_Loop_16) = true := Generated.Conforms.v17.conforms_v17_Loop
+
+theorem slots_v18_Loop : slotOK ("v17._Loop", Generated.Ctors.v17.f_loop, Generated.Schemas.v17.s_Loop_16) = true := Generated.Conforms.v17.slots_v17_Loop
 
 theorem conforms_v18_LpNormalization : entryOK ("v17._LpNormalization", Generated.Ctors.v17.f_lp_normalization, Generated.Schemas.v17.s_LpNormalization_1) = true := Generated.Conforms.v17.conforms_v17_LpNormalization
 
+theorem slots_v18_LpNormalization : slotOK ("v17._LpNormalization", Generated.Ctors.v17.f_lp_normalization, Generated.Schemas.v17.s_LpNormalization_1) = true := Generated.Conforms.v17.slots_v17_LpNormalization
+
 theorem conforms_v18_LpPool : entryOK ("v18._LpPool", Generated.Ctors.v18.f_lp_pool, Generated.Schemas.v18.s_LpPool_18) = true := by decide +kernel
+
+theorem slots_v18_LpPool : slotOK ("v18._LpPool", Generated.Ctors.v18.f_lp_pool, Generated.Schemas.v18.s_LpPool_18) = true := by decide +kernel
 
 theorem conforms_v18_MatMul : entryOK ("v17._MatMul", Generated.Ctors.v17.f_matmul, Generated.Schemas.v17.s_MatMul_13) = true := Generated.Conforms.v17.conforms_v17_MatMul
 
+theorem slots_v18_MatMul : slotOK ("v17._MatMul", Generated.Ctors.v17.f_matmul, Generated.Schemas.v17.s_MatMul_13) = true := Generated.Conforms.v17.slots_v17_MatMul
+
 theorem conforms_v18_MatMulInteger : entryOK ("v17._MatMulInteger", Generated.Ctors.v17.f_matmul_integer, Generated.Schemas.v17.s_MatMulInteger_10) = true := Generated.Conforms.v17.conforms_v17_MatMulInteger
+
+theorem slots_v18_MatMulInteger : slotOK ("v17._MatMulInteger", Generated.Ctors.v17.f_matmul_integer, Generated.Schemas.v17.s_MatMulInteger_10) = true := Generated.Conforms.v17.slots_v17_MatMulInteger
 
 theorem conforms_v18_Max : entryOK ("v17._Max", Generated.Ctors.v17.f_max, Generated.Schemas.v17.s_Max_13) = true := Generated.Conforms.v17.conforms_v17_Max
 
+theorem slots_v18_Max : slotOK ("v17._Max", Generated.Ctors.v17.f_max, Generated.Schemas.v17.s_Max_13) = true := Generated.Conforms.v17.slots_v17_Max
+
 theorem conforms_v18_MaxPool : entryOK ("v17._MaxPool", Generated.Ctors.v17.f_max_pool, Generated.Schemas.v17.s_MaxPool_12) = true := Generated.Conforms.v17.conforms_v17_MaxPool
+
+theorem slots_v18_MaxPool : slotOK ("v17._MaxPool", Generated.Ctors.v17.f_max_pool, Generated.Schemas.v17.s_MaxPool_12) = true := Generated.Conforms.v17.slots_v17_MaxPool
 
 theorem conforms_v18_MaxRoiPool : entryOK ("v17._MaxRoiPool", Generated.Ctors.v17.f_max_roi_pool, Generated.Schemas.v17.s_MaxRoiPool_1) = true := Generated.Conforms.v17.conforms_v17_MaxRoiPool
 
+theorem slots_v18_MaxRoiPool : slotOK ("v17._MaxRoiPool", Generated.Ctors.v17.f_max_roi_pool, Generated.Schemas.v17.s_MaxRoiPool_1) = true := Generated.Conforms.v17.slots_v17_MaxRoiPool
+
 theorem conforms_v18_MaxUnpool : entryOK ("v17._MaxUnpool", Generated.Ctors.v17.f_max_unpool, Generated.Schemas.v17.s_MaxUnpool_11) = true := Generated.Conforms.v17.conforms_v17_MaxUnpool
+
+theorem slots_v18_MaxUnpool : slotOK ("v17._MaxUnpool", Generated.Ctors.v17.f_max_unpool, Generated.Schemas.v17.s_MaxUnpool_11) = true := Generated.Conforms.v17.slots_v17_MaxUnpool
 
 theorem conforms_v18_Mean : entryOK ("v17._Mean", Generated.Ctors.v17.f_mean, Generated.Schemas.v17.s_Mean_13) = true := Generated.Conforms.v17.conforms_v17_Mean
 
+theorem slots_v18_Mean : slotOK ("v17._Mean", Generated.Ctors.v17.f_mean, Generated.Schemas.v17.s_Mean_13) = true := Generated.Conforms.v17.slots_v17_Mean
+
 theorem conforms_v18_MeanVarianceNormalization : entryOK ("v17._MeanVarianceNormalization", Generated.Ctors.v17.f_mean_variance_normalization, Generated.Schemas.v17.s_MeanVarianceNormalization_13) = true := Generated.Conforms.v17.conforms_v17_MeanVarianceNormalization
+
+theorem slots_v18_MeanVarianceNormalization : slotOK ("v17._MeanVarianceNormalization", Generated.Ctors.v17.f_mean_variance_normalization, Generated.Schemas.v17.s_MeanVarianceNormalization_13) = true := Generated.Conforms.v17.slots_v17_MeanVarianceNormalization
 
 theorem conforms_v18_MelWeightMatrix : entryOK ("v17._MelWeightMatrix", Generated.Ctors.v17.f_mel_weight_matrix, Generated.Schemas.v17.s_MelWeightMatrix_17) = true := Generated.Conforms.v17.conforms_v17_MelWeightMatrix
 
+theorem slots_v18_MelWeightMatrix : slotOK ("v17._MelWeightMatrix", Generated.Ctors.v17.f_mel_weight_matrix, Generated.Schemas.v17.s_MelWeightMatrix_17) = true := Generated.Conforms.v17.slots_v17_MelWeightMatrix
+
 theorem conforms_v18_Min : entryOK ("v17._Min", Generated.Ctors.v17.f_min, Generated.Schemas.v17.s_Min_13) = true := Generated.Conforms.v17.conforms_v17_Min
+
+theorem slots_v18_Min : slotOK ("v17._Min", Generated.Ctors.v17.f_min, Generated.Schemas.v17.s_Min_13) = true := Generated.Conforms.v17.slots_v17_Min
 
 theorem conforms_v18_Mish : entryOK ("v18._Mish", Generated.Ctors.v18.f_mish, Generated.Schemas.v18.s_Mish_18) = true := by decide +kernel
 
+theorem slots_v18_Mish : slotOK ("v18._Mish", Generated.Ctors.v18.f_mish, Generated.Schemas.v18.s_Mish_18) = true := by decide +kernel
+
 theorem conforms_v18_Mod : entryOK ("v17._Mod", Generated.Ctors.v17.f_mod, Generated.Schemas.v17.s_Mod_13) = true := Generated.Conforms.v17.conforms_v17_Mod
+
+theorem slots_v18_Mod : slotOK ("v17._Mod", Generated.Ctors.v17.f_mod, Generated.Schemas.v17.s_Mod_13) = true := Generated.Conforms.v17.slots_v17_Mod
 
 theorem conforms_v18_Mul : entryOK ("v17._Mul", Generated.Ctors.v17.f_mul, Generated.Schemas.v17.s_Mul_14) = true := Generated.Conforms.v17.conforms_v17_Mul
 
+theorem slots_v18_Mul : slotOK ("v17._Mul", Generated.Ctors.v17.f_mul, Generated.Schemas.v17.s_Mul_14) = true := Generated.Conforms.v17.slots_v17_Mul
+
 theorem conforms_v18_Multinomial : entryOK ("v17._Multinomial", Generated.Ctors.v17.f_multinomial, Generated.Schemas.v17.s_Multinomial_7) = true := Generated.Conforms.v17.conforms_v17_Multinomial
+
+theorem slots_v18_Multinomial : slotOK ("v17._Multinomial", Generated.Ctors.v17.f_multinomial, Generated.Schemas.v17.s_Multinomial_7) = true := Generated.Conforms.v17.slots_v17_Multinomial
 
 theorem conforms_v18_Neg : entryOK ("v17._Neg", Generated.Ctors.v17.f_neg, Generated.Schemas.v17.s_Neg_13) = true := Generated.Conforms.v17.conforms_v17_Neg
 
+theorem slots_v18_Neg : slotOK ("v17._Neg", Generated.Ctors.v17.f_neg, Generated.Schemas.v17.s_Neg_13) = true := Generated.Conforms.v17.slots_v17_Neg
+
 theorem conforms_v18_NegativeLogLikelihoodLoss : entryOK ("v17._NegativeLogLikelihoodLoss", Generated.Ctors.v17.f_negative_log_likelihood_loss, Generated.Schemas.v17.s_NegativeLogLikelihoodLoss_13) = true := Generated.Conforms.v17.conforms_v17_NegativeLogLikelihoodLoss
+
+theorem slots_v18_NegativeLogLikelihoodLoss : slotOK ("v17._NegativeLogLikelihoodLoss", Generated.Ctors.v17.f_negative_log_likelihood_loss, Generated.Schemas.v17.s_NegativeLogLikelihoodLoss_13) = true := Generated.Conforms.v17.slots_v17_NegativeLogLikelihoodLoss
 
 theorem conforms_v18_NonMaxSuppression : entryOK ("v17._NonMaxSuppression", Generated.Ctors.v17.f_non_max_suppression, Generated.Schemas.v17.s_NonMaxSuppression_11) = true := Generated.Conforms.v17.conforms_v17_NonMaxSuppression
 
+theorem slots_v18_NonMaxSuppression : slotOK ("v17._NonMaxSuppression", Generated.Ctors.v17.f_non_max_suppression, Generated.Schemas.v17.s_NonMaxSuppression_11) = true := Generated.Conforms.v17.slots_v17_NonMaxSuppression
+
 theorem conforms_v18_NonZero : entryOK ("v17._NonZero", Generated.Ctors.v17.f_non_zero, Generated.Schemas.v17.s_NonZero_13) = true := Generated.Conforms.v17.conforms_v17_NonZero
+
+theorem slots_v18_NonZero : slotOK ("v17._NonZero", Generated.Ctors.v17.f_non_zero, Generated.Schemas.v17.s_NonZero_13) = true := Generated.Conforms.v17.slots_v17_NonZero
 
 theorem conforms_v18_Not : entryOK ("v17._Not", Generated.Ctors.v17.f_not_, Generated.Schemas.v17.s_Not_1) = true := Generated.Conforms.v17.conforms_v17_Not
 
+theorem slots_v18_Not : slotOK ("v17._Not", Generated.Ctors.v17.f_not_, Generated.Schemas.v17.s_Not_1) = true := Generated.Conforms.v17.slots_v17_Not
+
 theorem conforms_v18_OneHot : entryOK ("v17._OneHot", Generated.Ctors.v17.f_one_hot, Generated.Schemas.v17.s_OneHot_11) = true := Generated.Conforms.v17.conforms_v17_OneHot
+
+theorem slots_v18_OneHot : slotOK ("v17._OneHot", Generated.Ctors.v17.f_one_hot, Generated.Schemas.v17.s_OneHot_11) = true := Generated.Conforms.v17.slots_v17_OneHot
 
 theorem conforms_v18_Optional : entryOK ("v17._Optional", Generated.Ctors.v17.f_optional, Generated.Schemas.v17.s_Optional_15) = true := Generated.Conforms.v17.conforms_v17_Optional
 
+theorem slots_v18_Optional : slotOK ("v17._Optional", Generated.Ctors.v17.f_optional, Generated.Schemas.v17.s_Optional_15) = true := Generated.Conforms.v17.slots_v17_Optional
+
 theorem conforms_v18_OptionalGetElement : entryOK ("v18._OptionalGetElement", Generated.Ctors.v18.f_optional_get_element, Generated.Schemas.v18.s_OptionalGetElement_18) = true := by decide +kernel
+
+theorem slots_v18_OptionalGetElement : slotOK ("v18._OptionalGetElement", Generated.Ctors.v18.f_optional_get_element, Generated.Schemas.v18.s_OptionalGetElement_18) = true := by decide +kernel
 
 theorem conforms_v18_OptionalHasElement : entryOK ("v18._OptionalHasElement", Generated.Ctors.v18.f_optional_has_element, Generated.Schemas.v18.s_OptionalHasElement_18) = true := by decide +kernel
 
+theorem slots_v18_OptionalHasElement : slotOK ("v18._OptionalHasElement", Generated.Ctors.v18.f_optional_has_element, Generated.Schemas.v18.s_OptionalHasElement_18) = true := by decide +kernel
+
 theorem conforms_v18_Or : entryOK ("v17._Or", Generated.Ctors.v17.f_or_, Generated.Schemas.v17.s_Or_7) = true := Generated.Conforms.v17.conforms_v17_Or
+
+theorem slots_v18_Or : slotOK ("v17._Or", Generated.Ctors.v17.f_or_, Generated.Schemas.v17.s_Or_7) = true := Generated.Conforms.v17.slots_v17_Or
 
 theorem conforms_v18_PRelu : entryOK ("v17._PRelu", Generated.Ctors.v17.f_prelu, Generated.Schemas.v17.s_PRelu_16) = true := Generated.Conforms.v17.conforms_v17_PRelu
 
+theorem slots_v18_PRelu : slotOK ("v17._PRelu", Generated.Ctors.v17.f_prelu, Generated.Schemas.v17.s_PRelu_16) = true := Generated.Conforms.v17.slots_v17_PRelu
+
 theorem conforms_v18_Pad : entryOK ("v18._Pad", Generated.Ctors.v18.f_pad, Generated.Schemas.v18.s_Pad_18) = true := by decide +kernel
+
+theorem slots_v18_Pad : slotOK ("v18._Pad", Generated.Ctors.v18.f_pad, Generated.Schemas.v18.s_Pad_18) = true := by decide +kernel
 
 theorem conforms_v18_Pow : entryOK ("v17._Pow", Generated.Ctors.v17.f_pow, Generated.Schemas.v17.s_Pow_15) = true := Generated.Conforms.v17.conforms_v17_Pow
 
+theorem slots_v18_Pow : slotOK ("v17._Pow", Generated.Ctors.v17.f_pow, Generated.Schemas.v17.s_Pow_15) = true := Generated.Conforms.v17.slots_v17_Pow
+
 theorem conforms_v18_QLinearConv : entryOK ("v17._QLinearConv", Generated.Ctors.v17.f_qlinear_conv, Generated.Schemas.v17.s_QLinearConv_10) = true := Generated.Conforms.v17.conforms_v17_QLinearConv
+
+theorem slots_v18_QLinearConv : slotOK ("v17._QLinearConv", Generated.Ctors.v17.f_qlinear_conv, Generated.Schemas.v17.s_QLinearConv_10) = true := Generated.Conforms.v17.slots_v17_QLinearConv
 
 theorem conforms_v18_QLinearMatMul : entryOK ("v17._QLinearMatMul", Generated.Ctors.v17.f_qlinear_matmul, Generated.Schemas.v17.s_QLinearMatMul_10) = true := Generated.Conforms.v17.conforms_v17_QLinearMatMul
 
+theorem slots_v18_QLinearMatMul : slotOK ("v17._QLinearMatMul", Generated.Ctors.v17.f_qlinear_matmul, Generated.Schemas.v17.s_QLinearMatMul_10) = true := Generated.Conforms.v17.slots_v17_QLinearMatMul
+
 theorem conforms_v18_QuantizeLinear : entryOK ("v17._QuantizeLinear", Generated.Ctors.v17.f_quantize_linear, Generated.Schemas.v17.s_QuantizeLinear_13) = true := Generated.Conforms.v17.conforms_v17_QuantizeLinear
+
+theorem slots_v18_QuantizeLinear : slotOK ("v17._QuantizeLinear", Generated.Ctors.v17.f_quantize_linear, Generated.Schemas.v17.s_QuantizeLinear_13) = true := Generated.Conforms.v17.slots_v17_QuantizeLinear
 
 theorem conforms_v18_RNN : entryOK ("v17._RNN", Generated.Ctors.v17.f_rnn, Generated.Schemas.v17.s_RNN_14) = true := Generated.Conforms.v17.conforms_v17_RNN
 
+theorem slots_v18_RNN : slotOK ("v17._RNN", Generated.Ctors.v17.f_rnn, Generated.Schemas.v17.s_RNN_14) = true := Generated.Conforms.v17.slots_v17_RNN
+
 theorem conforms_v18_RandomNormal : entryOK ("v17._RandomNormal", Generated.Ctors.v17.f_random_normal, Generated.Schemas.v17.s_RandomNormal_1) = true := Generated.Conforms.v17.conforms_v17_RandomNormal
+
+theorem slots_v18_RandomNormal : slotOK ("v17._RandomNormal", Generated.Ctors.v17.f_random_normal, Generated.Schemas.v17.s_RandomNormal_1) = true := Generated.Conforms.v17.slots_v17_RandomNormal
 
 theorem conforms_v18_RandomNormalLike : entryOK ("v17._RandomNormalLike", Generated.Ctors.v17.f_random_normal_like, Generated.Schemas.v17.s_RandomNormalLike_1) = true := Generated.Conforms.v17.conforms_v17_RandomNormalLike
 
+theorem slots_v18_RandomNormalLike : slotOK ("v17._RandomNormalLike", Generated.Ctors.v17.f_random_normal_like, Generated.Schemas.v17.s_RandomNormalLike_1) = true := Generated.Conforms.v17.slots_v17_RandomNormalLike
+
 theorem conforms_v18_RandomUniform : entryOK ("v17._RandomUniform", Generated.Ctors.v17.f_random_uniform, Generated.Schemas.v17.s_RandomUniform_1) = true := Generated.Conforms.v17.conforms_v17_RandomUniform
+
+theorem slots_v18_RandomUniform : slotOK ("v17._RandomUniform", Generated.Ctors.v17.f_random_uniform, Generated.Schemas.v17.s_RandomUniform_1) = true := Generated.Conforms.v17.slots_v17_RandomUniform
 
 theorem conforms_v18_RandomUniformLike : entryOK ("v17._RandomUniformLike", Generated.Ctors.v17.f_random_uniform_like, Generated.Schemas.v17.s_RandomUniformLike_1) = true := Generated.Conforms.v17.conforms_v17_RandomUniformLike
 
+theorem slots_v18_RandomUniformLike : slotOK ("v17._RandomUniformLike", Generated.Ctors.v17.f_random_uniform_like, Generated.Schemas.v17.s_RandomUniformLike_1) = true := Generated.Conforms.v17.slots_v17_RandomUniformLike
+
 theorem conforms_v18_Range : entryOK ("v17._Range", Generated.Ctors.v17.f_range, Generated.Schemas.v17.s_Range_11) = true := Generated.Conforms.v17.conforms_v17_Range
+
+theorem slots_v18_Range : slotOK ("v17._Range", Generated.Ctors.v17.f_range, Generated.Schemas.v17.s_Range_11) = true := Generated.Conforms.v17.slots_v17_Range
 
 theorem conforms_v18_Reciprocal : entryOK ("v17._Reciprocal", Generated.Ctors.v17.f_reciprocal, Generated.Schemas.v17.s_Reciprocal_13) = true := Generated.Conforms.v17.conforms_v17_Reciprocal
 
+theorem slots_v18_Reciprocal : slotOK ("v17._Reciprocal", Generated.Ctors.v17.f_reciprocal, Generated.Schemas.v17.s_Reciprocal_13) = true := Generated.Conforms.v17.slots_v17_Reciprocal
+
 theorem conforms_v18_ReduceL1 : entryOK ("v18._ReduceL1", Generated.Ctors.v18.f_reduce_l1, Generated.Schemas.v18.s_ReduceL1_18) = true := by decide +kernel
+
+theorem slots_v18_ReduceL1 : slotOK ("v18._ReduceL1", Generated.Ctors.v18.f_reduce_l1, Generated.Schemas.v18.s_ReduceL1_18) = true := by decide +kernel
 
 theorem conforms_v18_ReduceL2 : entryOK ("v18._ReduceL2", Generated.Ctors.v18.f_reduce_l2, Generated.Schemas.v18.s_ReduceL2_18) = true := by decide +kernel
 
+theorem slots_v18_ReduceL2 : slotOK ("v18._ReduceL2", Generated.Ctors.v18.f_reduce_l2, Generated.Schemas.v18.s_ReduceL2_18) = true := by decide +kernel
+
 theorem conforms_v18_ReduceLogSum : entryOK ("v18._ReduceLogSum", Generated.Ctors.v18.f_reduce_log_sum, Generated.Schemas.v18.s_ReduceLogSum_18) = true := by decide +kernel
+
+theorem slots_v18_ReduceLogSum : slotOK ("v18._ReduceLogSum", Generated.Ctors.v18.f_reduce_log_sum, Generated.Schemas.v18.s_ReduceLogSum_18) = true := by decide +kernel
 
 theorem conforms_v18_ReduceLogSumExp : entryOK ("v18._ReduceLogSumExp", Generated.Ctors.v18.f_reduce_log_sum_exp, Generated.Schemas.v18.s_ReduceLogSumExp_18) = true := by decide +kernel
 
+theorem slots_v18_ReduceLogSumExp : slotOK ("v18._ReduceLogSumExp", Generated.Ctors.v18.f_reduce_log_sum_exp, Generated.Schemas.v18.s_ReduceLogSumExp_18) = true := by decide +kernel
+
 theorem conforms_v18_ReduceMax : entryOK ("v18._ReduceMax", Generated.Ctors.v18.f_reduce_max, Generated.Schemas.v18.s_ReduceMax_18) = true := by decide +kernel
+
+theorem slots_v18_ReduceMax : slotOK ("v18._ReduceMax", Generated.Ctors.v18.f_reduce_max, Generated.Schemas.v18.s_ReduceMax_18) = true := by decide +kernel
 
 theorem conforms_v18_ReduceMean : entryOK ("v18._ReduceMean", Generated.Ctors.v18.f_reduce_mean, Generated.Schemas.v18.s_ReduceMean_18) = true := by decide +kernel
 
+theorem slots_v18_ReduceMean : slotOK ("v18._ReduceMean", Generated.Ctors.v18.f_reduce_mean, Generated.Schemas.v18.s_ReduceMean_18) = true := by decide +kernel
+
 theorem conforms_v18_ReduceMin : entryOK ("v18._ReduceMin", Generated.Ctors.v18.f_reduce_min, Generated.Schemas.v18.s_ReduceMin_18) = true := by decide +kernel
+
+theorem slots_v18_ReduceMin : slotOK ("v18._ReduceMin", Generated.Ctors.v18.f_reduce_min, Generated.Schemas.v18.s_ReduceMin_18) = true := by decide +kernel
 
 theorem conforms_v18_ReduceProd : entryOK ("v18._ReduceProd", Generated.Ctors.v18.f_reduce_prod, Generated.Schemas.v18.s_ReduceProd_18) = true := by decide +kernel
 
+theorem slots_v18_ReduceProd : slotOK ("v18._ReduceProd", Generated.Ctors.v18.f_reduce_prod, Generated.Schemas.v18.s_ReduceProd_18) = true := by decide +kernel
+
 theorem conforms_v18_ReduceSum : entryOK ("v17._ReduceSum", Generated.Ctors.v17.f_reduce_sum, Generated.Schemas.v17.s_ReduceSum_13) = true := Generated.Conforms.v17.conforms_v17_ReduceSum
+
+theorem slots_v18_ReduceSum : slotOK ("v17._ReduceSum", Generated.Ctors.v17.f_reduce_sum, Generated.Schemas.v17.s_ReduceSum_13) = true := Generated.Conforms.v17.slots_v17_ReduceSum
 
 theorem conforms_v18_ReduceSumSquare : entryOK ("v18._ReduceSumSquare", Generated.Ctors.v18.f_reduce_sum_square, Generated.Schemas.v18.s_ReduceSumSquare_18) = true := by decide +kernel
 
+theorem slots_v18_ReduceSumSquare : slotOK ("v18._ReduceSumSquare", Generated.Ctors.v18.f_reduce_sum_square, Generated.Schemas.v18.s_ReduceSumSquare_18) = true := by decide +kernel
+
 theorem conforms_v18_Relu : entryOK ("v17._Relu", Generated.Ctors.v17.f_relu, Generated.Schemas.v17.s_Relu_14) = true := Generated.Conforms.v17.conforms_v17_Relu
+
+theorem slots_v18_Relu : slotOK ("v17._Relu", Generated.Ctors.v17.f_relu, Generated.Schemas.v17.s_Relu_14) = true := Generated.Conforms.v17.slots_v17_Relu
 
 theorem conforms_v18_Reshape : entryOK ("v17._Reshape", Generated.Ctors.v17.f_reshape, Generated.Schemas.v17.s_Reshape_14) = true := Generated.Conforms.v17.conforms_v17_Reshape
 
+theorem slots_v18_Reshape : slotOK ("v17._Reshape", Generated.Ctors.v17.f_reshape, Generated.Schemas.v17.s_Reshape_14) = true := Generated.Conforms.v17.slots_v17_Reshape
+
 theorem conforms_v18_Resize : entryOK ("v18._Resize", Generated.Ctors.v18.f_resize, Generated.Schemas.v18.s_Resize_18) = true := by decide +kernel
+
+theorem slots_v18_Resize : slotOK ("v18._Resize", Generated.Ctors.v18.f_resize, Generated.Schemas.v18.s_Resize_18) = true := by decide +kernel
 
 theorem conforms_v18_ReverseSequence : entryOK ("v17._ReverseSequence", Generated.Ctors.v17.f_reverse_sequence, Generated.Schemas.v17.s_ReverseSequence_10) = true := Generated.Conforms.v17.conforms_v17_ReverseSequence
 
+theorem slots_v18_ReverseSequence : slotOK ("v17._ReverseSequence", Generated.Ctors.v17.f_reverse_sequence, Generated.Schemas.v17.s_ReverseSequence_10) = true := Generated.Conforms.v17.slots_v17_ReverseSequence
+
 theorem conforms_v18_RoiAlign : entryOK ("v17._RoiAlign", Generated.Ctors.v17.f_roi_align, Generated.Schemas.v17.s_RoiAlign_16) = true := Generated.Conforms.v17.conforms_v17_RoiAlign
+
+theorem slots_v18_RoiAlign : slotOK ("v17._RoiAlign", Generated.Ctors.v17.f_roi_align, Generated.Schemas.v17.s_RoiAlign_16) = true := Generated.Conforms.v17.slots_v17_RoiAlign
 
 theorem conforms_v18_Round : entryOK ("v17._Round", Generated.Ctors.v17.f_round, Generated.Schemas.v17.s_Round_11) = true := Generated.Conforms.v17.conforms_v17_Round
 
+theorem slots_v18_Round : slotOK ("v17._Round", Generated.Ctors.v17.f_round, Generated.Schemas.v17.s_Round_11) = true := Generated.Conforms.v17.slots_v17_Round
+
 theorem conforms_v18_STFT : entryOK ("v17._STFT", Generated.Ctors.v17.f_stft, Generated.Schemas.v17.s_STFT_17) = true := Generated.Conforms.v17.conforms_v17_STFT
+
+theorem slots_v18_STFT : slotOK ("v17._STFT", Generated.Ctors.v17.f_stft, Generated.Schemas.v17.s_STFT_17) = true := Generated.Conforms.v17.slots_v17_STFT
 
 theorem conforms_v18_Scan : entryOK ("v17._Scan", Generated.Ctors.v17.f_scan, Generated.Schemas.v17.s_Scan_16) = true := Generated.Conforms.v17.conforms_v17_Scan
 
+theorem slots_v18_Scan : slotOK ("v17._Scan", Generated.Ctors.v17.f_scan, Generated.Schemas.v17.s_Scan_16) = true := Generated.Conforms.v17.slots_v17_Scan
+
 theorem conforms_v18_ScatterElements : entryOK ("v18._ScatterElements", Generated.Ctors.v18.f_scatter_elements, Generated.Schemas.v18.s_ScatterElements_18) = true := by decide +kernel
+
+theorem slots_v18_ScatterElements : slotOK ("v18._ScatterElements", Generated.Ctors.v18.f_scatter_elements, Generated.Schemas.v18.s_ScatterElements_18) = true := by decide +kernel
 
 theorem conforms_v18_ScatterND : entryOK ("v18._ScatterND", Generated.Ctors.v18.f_scatter_nd, Generated.Schemas.v18.s_ScatterND_18) = true := by decide +kernel
 
+theorem slots_v18_ScatterND : slotOK ("v18._ScatterND", Generated.Ctors.v18.f_scatter_nd, Generated.Schemas.v18.s_ScatterND_18) = true := by decide +kernel
+
 theorem conforms_v18_Selu : entryOK ("v17._Selu", Generated.Ctors.v17.f_selu, Generated.Schemas.v17.s_Selu_6) = true := Generated.Conforms.v17.conforms_v17_Selu
+
+theorem slots_v18_Selu : slotOK ("v17._Selu", Generated.Ctors.v17.f_selu, Generated.Schemas.v17.s_Selu_6) = true := Generated.Conforms.v17.slots_v17_Selu
 
 theorem conforms_v18_SequenceAt : entryOK ("v17._SequenceAt", Generated.Ctors.v17.f_sequence_at, Generated.Schemas.v17.s_SequenceAt_11) = true := Generated.Conforms.v17.conforms_v17_SequenceAt
 
+theorem slots_v18_SequenceAt : slotOK ("v17._SequenceAt", Generated.Ctors.v17.f_sequence_at, Generated.Schemas.v17.s_SequenceAt_11) = true := Generated.Conforms.v17.slots_v17_SequenceAt
+
 theorem conforms_v18_SequenceConstruct : entryOK ("v17._SequenceConstruct", Generated.Ctors.v17.f_sequence_construct, Generated.Schemas.v17.s_SequenceConstruct_11) = true := Generated.Conforms.v17.conforms_v17_SequenceConstruct
+
+theorem slots_v18_SequenceConstruct : slotOK ("v17._SequenceConstruct", Generated.Ctors.v17.f_sequence_construct, Generated.Schemas.v17.s_SequenceConstruct_11) = true := Generated.Conforms.v17.slots_v17_SequenceConstruct
 
 theorem conforms_v18_SequenceEmpty : entryOK ("v17._SequenceEmpty", Generated.Ctors.v17.f_sequence_empty, Generated.Schemas.v17.s_SequenceEmpty_11) = true := Generated.Conforms.v17.conforms_v17_SequenceEmpty
 
+theorem slots_v18_SequenceEmpty : slotOK ("v17._SequenceEmpty", Generated.Ctors.v17.f_sequence_empty, Generated.Schemas.v17.s_SequenceEmpty_11) = true := Generated.Conforms.v17.slots_v17_SequenceEmpty
+
 theorem conforms_v18_SequenceErase : entryOK ("v17._SequenceErase", Generated.Ctors.v17.f_sequence_erase, Generated.Schemas.v17.s_SequenceErase_11) = true := Generated.Conforms.v17.conforms_v17_SequenceErase
+
+theorem slots_v18_SequenceErase : slotOK ("v17._SequenceErase", Generated.Ctors.v17.f_sequence_erase, Generated.Schemas.v17.s_SequenceErase_11) = true := Generated.Conforms.v17.slots_v17_SequenceErase
 
 theorem conforms_v18_SequenceInsert : entryOK ("v17._SequenceInsert", Generated.Ctors.v17.f_sequence_insert, Generated.Schemas.v17.s_SequenceInsert_11) = true := Generated.Conforms.v17.conforms_v17_SequenceInsert
 
+theorem slots_v18_SequenceInsert : slotOK ("v17._SequenceInsert", Generated.Ctors.v17.f_sequence_insert, Generated.Schemas.v17.s_SequenceInsert_11) = true := Generated.Conforms.v17.slots_v17_SequenceInsert
+
 theorem conforms_v18_SequenceLength : entryOK ("v17._SequenceLength", Generated.Ctors.v17.f_sequence_length, Generated.Schemas.v17.s_SequenceLength_11) = true := Generated.Conforms.v17.conforms_v17_SequenceLength
+
+theorem slots_v18_SequenceLength : slotOK ("v17._SequenceLength", Generated.Ctors.v17.f_sequence_length, Generated.Schemas.v17.s_SequenceLength_11) = true := Generated.Conforms.v17.slots_v17_SequenceLength
 
 theorem conforms_v18_SequenceMap : entryOK ("v17._SequenceMap", Generated.Ctors.v17.f_sequence_map, Generated.Schemas.v17.s_SequenceMap_17) = true := Generated.Conforms.v17.conforms_v17_SequenceMap
 
+theorem slots_v18_SequenceMap : slotOK ("v17._SequenceMap", Generated.Ctors.v17.f_sequence_map, Generated.Schemas.v17.s_SequenceMap_17) = true := Generated.Conforms.v17.slots_v17_SequenceMap
+
 theorem conforms_v18_Shape : entryOK ("v17._Shape", Generated.Ctors.v17.f_shape, Generated.Schemas.v17.s_Shape_15) = true := Generated.Conforms.v17.conforms_v17_Shape
+
+theorem slots_v18_Shape : slotOK ("v17._Shape", Generated.Ctors.v17.f_shape, Generated.Schemas.v17.s_Shape_15) = true := Generated.Conforms.v17.slots_v17_Shape
 
 theorem conforms_v18_Shrink : entryOK ("v17._Shrink", Generated.Ctors.v17.f_shrink, Generated.Schemas.v17.s_Shrink_9) = true := Generated.Conforms.v17.conforms_v17_Shrink
 
+theorem slots_v18_Shrink : slotOK ("v17._Shrink", Generated.Ctors.v17.f_shrink, Generated.Schemas.v17.s_Shrink_9) = true := Generated.Conforms.v17.slots_v17_Shrink
+
 theorem conforms_v18_Sigmoid : entryOK ("v17._Sigmoid", Generated.Ctors.v17.f_sigmoid, Generated.Schemas.v17.s_Sigmoid_13) = true := Generated.Conforms.v17.conforms_v17_Sigmoid
+
+theorem slots_v18_Sigmoid : slotOK ("v17._Sigmoid", Generated.Ctors.v17.f_sigmoid, Generated.Schemas.v17.s_Sigmoid_13) = true := Generated.Conforms.v17.slots_v17_Sigmoid
 
 theorem conforms_v18_Sign : entryOK ("v17._Sign", Generated.Ctors.v17.f_sign, Generated.Schemas.v17.s_Sign_13) = true := Generated.Conforms.v17.conforms_v17_Sign
 
+theorem slots_v18_Sign : slotOK ("v17._Sign", Generated.Ctors.v17.f_sign, Generated.Schemas.v17.s_Sign_13) = true := Generated.Conforms.v17.slots_v17_Sign
+
 theorem conforms_v18_Sin : entryOK ("v17._Sin", Generated.Ctors.v17.f_sin, Generated.Schemas.v17.s_Sin_7) = true := Generated.Conforms.v17.conforms_v17_Sin
+
+theorem slots_v18_Sin : slotOK ("v17._Sin", Generated.Ctors.v17.f_sin, Generated.Schemas.v17.s_Sin_7) = true := Generated.Conforms.v17.slots_v17_Sin
 
 theorem conforms_v18_Sinh : entryOK ("v17._Sinh", Generated.Ctors.v17.f_sinh, Generated.Schemas.v17.s_Sinh_9) = true := Generated.Conforms.v17.conforms_v17_Sinh
 
+theorem slots_v18_Sinh : slotOK ("v17._Sinh", Generated.Ctors.v17.f_sinh, Generated.Schemas.v17.s_Sinh_9) = true := Generated.Conforms.v17.slots_v17_Sinh
+
 theorem conforms_v18_Size : entryOK ("v17._Size", Generated.Ctors.v17.f_size, Generated.Schemas.v17.s_Size_13) = true := Generated.Conforms.v17.conforms_v17_Size
+
+theorem slots_v18_Size : slotOK ("v17._Size", Generated.Ctors.v17.f_size, Generated.Schemas.v17.s_Size_13) = true := Generated.Conforms.v17.slots_v17_Size
 
 theorem conforms_v18_Slice : entryOK ("v17._Slice", Generated.Ctors.v17.f_slice, Generated.Schemas.v17.s_Slice_13) = true := Generated.Conforms.v17.conforms_v17_Slice
 
+theorem slots_v18_Slice : slotOK ("v17._Slice", Generated.Ctors.v17.f_slice, Generated.Schemas.v17.s_Slice_13) = true := Generated.Conforms.v17.slots_v17_Slice
+
 theorem conforms_v18_Softmax : entryOK ("v17._Softmax", Generated.Ctors.v17.f_softmax, Generated.Schemas.v17.s_Softmax_13) = true := Generated.Conforms.v17.conforms_v17_Softmax
+
+theorem slots_v18_Softmax : slotOK ("v17._Softmax", Generated.Ctors.v17.f_softmax, Generated.Schemas.v17.s_Softmax_13) = true := Generated.Conforms.v17.slots_v17_Softmax
 
 theorem conforms_v18_SoftmaxCrossEntropyLoss : entryOK ("v17._SoftmaxCrossEntropyLoss", Generated.Ctors.v17.f_softmax_cross_entropy_loss, Generated.Schemas.v17.s_SoftmaxCrossEntropyLoss_13) = true := Generated.Conforms.v17.conforms_v17_SoftmaxCrossEntropyLoss
 
+theorem slots_v18_SoftmaxCrossEntropyLoss : slotOK ("v17._SoftmaxCrossEntropyLoss", Generated.Ctors.v17.f_softmax_cross_entropy_loss, Generated.Schemas.v17.s_SoftmaxCrossEntropyLoss_13) = true := Generated.Conforms.v17.slots_v17_SoftmaxCrossEntropyLoss
+
 theorem conforms_v18_Softplus : entryOK ("v17._Softplus", Generated.Ctors.v17.f_softplus, Generated.Schemas.v17.s_Softplus_1) = true := Generated.Conforms.v17.conforms_v17_Softplus
+
+theorem slots_v18_Softplus : slotOK ("v17._Softplus", Generated.Ctors.v17.f_softplus, Generated.Schemas.v17.s_Softplus_1) = true := Generated.Conforms.v17.slots_v17_Softplus
 
 theorem conforms_v18_Softsign : entryOK ("v17._Softsign", Generated.Ctors.v17.f_softsign, Generated.Schemas.v17.s_Softsign_1) = true := Generated.Conforms.v17.conforms_v17_Softsign
 
+theorem slots_v18_Softsign : slotOK ("v17._Softsign", Generated.Ctors.v17.f_softsign, Generated.Schemas.v17.s_Softsign_1) = true := Generated.Conforms.v17.slots_v17_Softsign
+
 theorem conforms_v18_SpaceToDepth : entryOK ("v17._SpaceToDepth", Generated.Ctors.v17.f_space_to_depth, Generated.Schemas.v17.s_SpaceToDepth_13) = true := Generated.Conforms.v17.conforms_v17_SpaceToDepth
+
+theorem slots_v18_SpaceToDepth : slotOK ("v17._SpaceToDepth", Generated.Ctors.v17.f_space_to_depth, Generated.Schemas.v17.s_SpaceToDepth_13) = true := Generated.Conforms.v17.slots_v17_SpaceToDepth
 
 theorem conforms_v18_Split : entryOK ("v18._Split", Generated.Ctors.v18.f_split, Generated.Schemas.v18.s_Split_18) = true := by decide +kernel
 
+theorem slots_v18_Split : slotOK ("v18._Split", Generated.Ctors.v18.f_split, Generated.Schemas.v18.s_Split_18) = true := by decide +kernel
+
 theorem conforms_v18_SplitToSequence : entryOK ("v17._SplitToSequence", Generated.Ctors.v17.f_split_to_sequence, Generated.Schemas.v17.s_SplitToSequence_11) = true := Generated.Conforms.v17.conforms_v17_SplitToSequence
+
+theorem slots_v18_SplitToSequence : slotOK ("v17._SplitToSequence", Generated.Ctors.v17.f_split_to_sequence, Generated.Schemas.v17.s_SplitToSequence_11) = true := Generated.Conforms.v17.slots_v17_SplitToSequence
 
 theorem conforms_v18_Sqrt : entryOK ("v17._Sqrt", Generated.Ctors.v17.f_sqrt, Generated.Schemas.v17.s_Sqrt_13) = true := Generated.Conforms.v17.conforms_v17_Sqrt
 
+theorem slots_v18_Sqrt : slotOK ("v17._Sqrt", Generated.Ctors.v17.f_sqrt, Generated.Schemas.v17.s_Sqrt_13) = true := Generated.Conforms.v17.slots_v17_Sqrt
+
 theorem conforms_v18_Squeeze : entryOK ("v17._Squeeze", Generated.Ctors.v17.f_squeeze, Generated.Schemas.v17.s_Squeeze_13) = true := Generated.Conforms.v17.conforms_v17_Squeeze
+
+theorem slots_v18_Squeeze : slotOK ("v17._Squeeze", Generated.Ctors.v17.f_squeeze, Generated.Schemas.v17.s_Squeeze_13) = true := Generated.Conforms.v17.slots_v17_Squeeze
 
 theorem conforms_v18_StringNormalizer : entryOK ("v17._StringNormalizer", Generated.Ctors.v17.f_string_normalizer, Generated.Schemas.v17.s_StringNormalizer_10) = true := Generated.Conforms.v17.conforms_v17_StringNormalizer
 
+theorem slots_v18_StringNormalizer : slotOK ("v17._StringNormalizer", Generated.Ctors.v17.f_string_normalizer, Generated.Schemas.v17.s_StringNormalizer_10) = true := Generated.Conforms.v17.slots_v17_StringNormalizer
+
 theorem conforms_v18_Sub : entryOK ("v17._Sub", Generated.Ctors.v17.f_sub, Generated.Schemas.v17.s_Sub_14) = true := Generated.Conforms.v17.conforms_v17_Sub
+
+theorem slots_v18_Sub : slotOK ("v17._Sub", Generated.Ctors.v17.f_sub, Generated.Schemas.v17.s_Sub_14) = true := Generated.Conforms.v17.slots_v17_Sub
 
 theorem conforms_v18_Sum : entryOK ("v17._Sum", Generated.Ctors.v17.f_sum, Generated.Schemas.v17.s_Sum_13) = true := Generated.Conforms.v17.conforms_v17_Sum
 
+theorem slots_v18_Sum : slotOK ("v17._Sum", Generated.Ctors.v17.f_sum, Generated.Schemas.v17.s_Sum_13) = true := Generated.Conforms.v17.slots_v17_Sum
+
 theorem conforms_v18_Tan : entryOK ("v17._Tan", Generated.Ctors.v17.f_tan, Generated.Schemas.v17.s_Tan_7) = true := Generated.Conforms.v17.conforms_v17_Tan
+
+theorem slots_v18_Tan : slotOK ("v17._Tan", Generated.Ctors.v17.f_tan, Generated.Schemas.v17.s_Tan_7) = true := Generated.Conforms.v17.slots_v17_Tan
 
 theorem conforms_v18_Tanh : entryOK ("v17._Tanh", Generated.Ctors.v17.f_tanh, Generated.Schemas.v17.s_Tanh_13) = true := Generated.Conforms.v17.conforms_v17_Tanh
 
+theorem slots_v18_Tanh : slotOK ("v17._Tanh", Generated.Ctors.v17.f_tanh, Generated.Schemas.v17.s_Tanh_13) = true := Generated.Conforms.v17.slots_v17_Tanh
+
 theorem conforms_v18_TfIdfVectorizer : entryOK ("v17._TfIdfVectorizer", Generated.Ctors.v17.f_tf_idf_vectorizer, Generated.Schemas.v17.s_TfIdfVectorizer_9) = true := Generated.Conforms.v17.conforms_v17_TfIdfVectorizer
+
+theorem slots_v18_TfIdfVectorizer : slotOK ("v17._TfIdfVectorizer", Generated.Ctors.v17.f_tf_idf_vectorizer, Generated.Schemas.v17.s_TfIdfVectorizer_9) = true := Generated.Conforms.v17.slots_v17_TfIdfVectorizer
 
 theorem conforms_v18_ThresholdedRelu : entryOK ("v17._ThresholdedRelu", Generated.Ctors.v17.f_thresholded_relu, Generated.Schemas.v17.s_ThresholdedRelu_10) = true := Generated.Conforms.v17.conforms_v17_ThresholdedRelu
 
+theorem slots_v18_ThresholdedRelu : slotOK ("v17._ThresholdedRelu", Generated.Ctors.v17.f_thresholded_relu, Generated.Schemas.v17.s_ThresholdedRelu_10) = true := Generated.Conforms.v17.slots_v17_ThresholdedRelu
+
 theorem conforms_v18_Tile : entryOK ("v17._Tile", Generated.Ctors.v17.f_tile, Generated.Schemas.v17.s_Tile_13) = true := Generated.Conforms.v17.conforms_v17_Tile
+
+theorem slots_v18_Tile : slotOK ("v17._Tile", Generated.Ctors.v17.f_tile, Generated.Schemas.v17.s_Tile_13) = true := Generated.Conforms.v17.slots_v17_Tile
 
 theorem conforms_v18_TopK : entryOK ("v17._TopK", Generated.Ctors.v17.f_top_k, Generated.Schemas.v17.s_TopK_11) = true := Generated.Conforms.v17.conforms_v17_TopK
 
+theorem slots_v18_TopK : slotOK ("v17._TopK", Generated.Ctors.v17.f_top_k, Generated.Schemas.v17.s_TopK_11) = true := Generated.Conforms.v17.slots_v17_TopK
+
 theorem conforms_v18_Transpose : entryOK ("v17._Transpose", Generated.Ctors.v17.f_transpose, Generated.Schemas.v17.s_Transpose_13) = true := Generated.Conforms.v17.conforms_v17_Transpose
+
+theorem slots_v18_Transpose : slotOK ("v17._Transpose", Generated.Ctors.v17.f_transpose, Generated.Schemas.v17.s_Transpose_13) = true := Generated.Conforms.v17.slots_v17_Transpose
 
 theorem conforms_v18_Trilu : entryOK ("v17._Trilu", Generated.Ctors.v17.f_trilu, Generated.Schemas.v17.s_Trilu_14) = true := Generated.Conforms.v17.conforms_v17_Trilu
 
+theorem slots_v18_Trilu : slotOK ("v17._Trilu", Generated.Ctors.v17.f_trilu, Generated.Schemas.v17.s_Trilu_14) = true := Generated.Conforms.v17.slots_v17_Trilu
+
 theorem conforms_v18_Unique : entryOK ("v17._Unique", Generated.Ctors.v17.f_unique, Generated.Schemas.v17.s_Unique_11) = true := Generated.Conforms.v17.conforms_v17_Unique
+
+theorem slots_v18_Unique : slotOK ("v17._Unique", Generated.Ctors.v17.f_unique, Generated.Schemas.v17.s_Unique_11) = true := Generated.Conforms.v17.slots_v17_Unique
 
 theorem conforms_v18_Unsqueeze : entryOK ("v17._Unsqueeze", Generated.Ctors.v17.f_unsqueeze, Generated.Schemas.v17.s_Unsqueeze_13) = true := Generated.Conforms.v17.conforms_v17_Unsqueeze
 
+theorem slots_v18_Unsqueeze : slotOK ("v17._Unsqueeze", Generated.Ctors.v17.f_unsqueeze, Generated.Schemas.v17.s_Unsqueeze_13) = true := Generated.Conforms.v17.slots_v17_Unsqueeze
+
 theorem conforms_v18_Where : entryOK ("v17._Where", Generated.Ctors.v17.f_where, Generated.Schemas.v17.s_Where_16) = true := Generated.Conforms.v17.conforms_v17_Where
 
+theorem slots_v18_Where : slotOK ("v17._Where", Generated.Ctors.v17.f_where, Generated.Schemas.v17.s_Where_16) = true := Generated.Conforms.v17.slots_v17_Where
+
 theorem conforms_v18_Xor : entryOK ("v17._Xor", Generated.Ctors.v17.f_xor, Generated.Schemas.v17.s_Xor_7) = true := Generated.Conforms.v17.conforms_v17_Xor
+
+theorem slots_v18_Xor : slotOK ("v17._Xor", Generated.Ctors.v17.f_xor, Generated.Schemas.v17.s_Xor_7) = true := Generated.Conforms.v17.slots_v17_Xor
 
 /-- every operator/module pair of this module without a listed deviation -/
 def table : List Entry :=
@@ -748,6 +1116,384 @@ theorem table_all : table.all entryOK = true :=
 
 theorem table_conforms : ∀ e ∈ table, entryOK e = true :=
   fun e he => List.all_eq_true.mp table_all e he
+
+/-- every operator/module pair of this module (deviating ones included: deviations concern attributes) -/
+def allEntries : List Entry :=
+  [
+   ("v17._Abs", Generated.Ctors.v17.f_abs, Generated.Schemas.v17.s_Abs_13), 
+   ("v17._Acos", Generated.Ctors.v17.f_acos, Generated.Schemas.v17.s_Acos_7), 
+   ("v17._Acosh", Generated.Ctors.v17.f_acosh, Generated.Schemas.v17.s_Acosh_9), 
+   ("v17._Add", Generated.Ctors.v17.f_add, Generated.Schemas.v17.s_Add_14), 
+   ("v17._And", Generated.Ctors.v17.f_and_, Generated.Schemas.v17.s_And_7), 
+   ("v17._ArgMax", Generated.Ctors.v17.f_arg_max, Generated.Schemas.v17.s_ArgMax_13), 
+   ("v17._ArgMin", Generated.Ctors.v17.f_arg_min, Generated.Schemas.v17.s_ArgMin_13), 
+   ("v17._Asin", Generated.Ctors.v17.f_asin, Generated.Schemas.v17.s_Asin_7), 
+   ("v17._Asinh", Generated.Ctors.v17.f_asinh, Generated.Schemas.v17.s_Asinh_9), 
+   ("v17._Atan", Generated.Ctors.v17.f_atan, Generated.Schemas.v17.s_Atan_7), 
+   ("v17._Atanh", Generated.Ctors.v17.f_atanh, Generated.Schemas.v17.s_Atanh_9), 
+   ("v17._AveragePool", Generated.Ctors.v17.f_average_pool, Generated.Schemas.v17.s_AveragePool_11), 
+   ("v17._BatchNormalization", Generated.Ctors.v17.f_batch_normalization, Generated.Schemas.v17.s_BatchNormalization_15), 
+   ("v17._Bernoulli", Generated.Ctors.v17.f_bernoulli, Generated.Schemas.v17.s_Bernoulli_15), 
+   ("v17._BitShift", Generated.Ctors.v17.f_bit_shift, Generated.Schemas.v17.s_BitShift_11), 
+   ("v18._BitwiseAnd", Generated.Ctors.v18.f_bitwise_and, Generated.Schemas.v18.s_BitwiseAnd_18), 
+   ("v18._BitwiseNot", Generated.Ctors.v18.f_bitwise_not, Generated.Schemas.v18.s_BitwiseNot_18), 
+   ("v18._BitwiseOr", Generated.Ctors.v18.f_bitwise_or, Generated.Schemas.v18.s_BitwiseOr_18), 
+   ("v18._BitwiseXor", Generated.Ctors.v18.f_bitwise_xor, Generated.Schemas.v18.s_BitwiseXor_18), 
+   ("v17._BlackmanWindow", Generated.Ctors.v17.f_blackman_window, Generated.Schemas.v17.s_BlackmanWindow_17), 
+   ("v17._Cast", Generated.Ctors.v17.f_cast, Generated.Schemas.v17.s_Cast_13), 
+   ("v17._CastLike", Generated.Ctors.v17.f_cast_like, Generated.Schemas.v17.s_CastLike_15), 
+   ("v17._Ceil", Generated.Ctors.v17.f_ceil, Generated.Schemas.v17.s_Ceil_13), 
+   ("v17._Celu", Generated.Ctors.v17.f_celu, Generated.Schemas.v17.s_Celu_12), 
+   ("v18._CenterCropPad", Generated.Ctors.v18.f_center_crop_pad, Generated.Schemas.v18.s_CenterCropPad_18), 
+   ("v17._Clip", Generated.Ctors.v17.f_clip, Generated.Schemas.v17.s_Clip_13), 
+   ("v18._Col2Im", Generated.Ctors.v18.f_col2_im, Generated.Schemas.v18.s_Col2Im_18), 
+   ("v17._Compress", Generated.Ctors.v17.f_compress, Generated.Schemas.v17.s_Compress_11), 
+   ("v17._Concat", Generated.Ctors.v17.f_concat, Generated.Schemas.v17.s_Concat_13), 
+   ("v17._ConcatFromSequence", Generated.Ctors.v17.f_concat_from_sequence, Generated.Schemas.v17.s_ConcatFromSequence_11), 
+   ("v17._Constant", Generated.Ctors.v17.f_constant, Generated.Schemas.v17.s_Constant_13), 
+   ("v17._ConstantOfShape", Generated.Ctors.v17.f_constant_of_shape, Generated.Schemas.v17.s_ConstantOfShape_9), 
+   ("v17._Conv", Generated.Ctors.v17.f_conv, Generated.Schemas.v17.s_Conv_11), 
+   ("v17._ConvInteger", Generated.Ctors.v17.f_conv_integer, Generated.Schemas.v17.s_ConvInteger_10), 
+   ("v17._ConvTranspose", Generated.Ctors.v17.f_conv_transpose, Generated.Schemas.v17.s_ConvTranspose_11), 
+   ("v17._Cos", Generated.Ctors.v17.f_cos, Generated.Schemas.v17.s_Cos_7), 
+   ("v17._Cosh", Generated.Ctors.v17.f_cosh, Generated.Schemas.v17.s_Cosh_9), 
+   ("v17._CumSum", Generated.Ctors.v17.f_cumsum, Generated.Schemas.v17.s_CumSum_14), 
+   ("v17._DFT", Generated.Ctors.v17.f_dft, Generated.Schemas.v17.s_DFT_17), 
+   ("v17._DepthToSpace", Generated.Ctors.v17.f_depth_to_space, Generated.Schemas.v17.s_DepthToSpace_13), 
+   ("v17._DequantizeLinear", Generated.Ctors.v17.f_dequantize_linear, Generated.Schemas.v17.s_DequantizeLinear_13), 
+   ("v17._Det", Generated.Ctors.v17.f_det, Generated.Schemas.v17.s_Det_11), 
+   ("v17._Div", Generated.Ctors.v17.f_div, Generated.Schemas.v17.s_Div_14), 
+   ("v17._Dropout", Generated.Ctors.v17.f_dropout, Generated.Schemas.v17.s_Dropout_13), 
+   ("v17._DynamicQuantizeLinear", Generated.Ctors.v17.f_dynamic_quantize_linear, Generated.Schemas.v17.s_DynamicQuantizeLinear_11), 
+   ("v17._Einsum", Generated.Ctors.v17.f_einsum, Generated.Schemas.v17.s_Einsum_12), 
+   ("v17._Elu", Generated.Ctors.v17.f_elu, Generated.Schemas.v17.s_Elu_6), 
+   ("v17._Equal", Generated.Ctors.v17.f_equal, Generated.Schemas.v17.s_Equal_13), 
+   ("v17._Erf", Generated.Ctors.v17.f_erf, Generated.Schemas.v17.s_Erf_13), 
+   ("v17._Exp", Generated.Ctors.v17.f_exp, Generated.Schemas.v17.s_Exp_13), 
+   ("v17._Expand", Generated.Ctors.v17.f_expand, Generated.Schemas.v17.s_Expand_13), 
+   ("v17._EyeLike", Generated.Ctors.v17.f_eye_like, Generated.Schemas.v17.s_EyeLike_9), 
+   ("v17._Flatten", Generated.Ctors.v17.f_flatten, Generated.Schemas.v17.s_Flatten_13), 
+   ("v17._Floor", Generated.Ctors.v17.f_floor, Generated.Schemas.v17.s_Floor_13), 
+   ("v17._GRU", Generated.Ctors.v17.f_gru, Generated.Schemas.v17.s_GRU_14), 
+   ("v17._Gather", Generated.Ctors.v17.f_gather, Generated.Schemas.v17.s_Gather_13), 
+   ("v17._GatherElements", Generated.Ctors.v17.f_gather_elements, Generated.Schemas.v17.s_GatherElements_13), 
+   ("v17._GatherND", Generated.Ctors.v17.f_gather_nd, Generated.Schemas.v17.s_GatherND_13), 
+   ("v17._Gemm", Generated.Ctors.v17.f_gemm, Generated.Schemas.v17.s_Gemm_13), 
+   ("v17._GlobalAveragePool", Generated.Ctors.v17.f_global_average_pool, Generated.Schemas.v17.s_GlobalAveragePool_1), 
+   ("v17._GlobalLpPool", Generated.Ctors.v17.f_global_lp_pool, Generated.Schemas.v17.s_GlobalLpPool_2), 
+   ("v17._GlobalMaxPool", Generated.Ctors.v17.f_global_max_pool, Generated.Schemas.v17.s_GlobalMaxPool_1), 
+   ("v17._Greater", Generated.Ctors.v17.f_greater, Generated.Schemas.v17.s_Greater_13), 
+   ("v17._GreaterOrEqual", Generated.Ctors.v17.f_greater_or_equal, Generated.Schemas.v17.s_GreaterOrEqual_16), 
+   ("v17._GridSample", Generated.Ctors.v17.f_grid_sample, Generated.Schemas.v17.s_GridSample_16), 
+   ("v18._GroupNormalization", Generated.Ctors.v18.f_group_normalization, Generated.Schemas.v18.s_GroupNormalization_18), 
+   ("v17._HammingWindow", Generated.Ctors.v17.f_hamming_window, Generated.Schemas.v17.s_HammingWindow_17), 
+   ("v17._HannWindow", Generated.Ctors.v17.f_hann_window, Generated.Schemas.v17.s_HannWindow_17), 
+   ("v17._HardSigmoid", Generated.Ctors.v17.f_hard_sigmoid, Generated.Schemas.v17.s_HardSigmoid_6), 
+   ("v17._HardSwish", Generated.Ctors.v17.f_hard_swish, Generated.Schemas.v17.s_HardSwish_14), 
+   ("v17._Hardmax", Generated.Ctors.v17.f_hardmax, Generated.Schemas.v17.s_Hardmax_13), 
+   ("v17._Identity", Generated.Ctors.v17.f_identity, Generated.Schemas.v17.s_Identity_16), 
+   ("v17._If", Generated.Ctors.v17.f_if_, Generated.Schemas.v17.s_If_16), 
+   ("v17._InstanceNormalization", Generated.Ctors.v17.f_instance_normalization, Generated.Schemas.v17.s_InstanceNormalization_6), 
+   ("v17._IsInf", Generated.Ctors.v17.f_isinf, Generated.Schemas.v17.s_IsInf_10), 
+   ("v17._IsNaN", Generated.Ctors.v17.f_isnan, Generated.Schemas.v17.s_IsNaN_13), 
+   ("v17._LRN", Generated.Ctors.v17.f_lrn, Generated.Schemas.v17.s_LRN_13), 
+   ("v17._LSTM", Generated.Ctors.v17.f_lstm, Generated.Schemas.v17.s_LSTM_14), 
+   ("v17._LayerNormalization", Generated.Ctors.v17.f_layer_normalization, Generated.Schemas.v17.s_LayerNormalization_17), 
+   ("v17._LeakyRelu", Generated.Ctors.v17.f_leaky_relu, Generated.Schemas.v17.s_LeakyRelu_16), 
+   ("v17._Less", Generated.Ctors.v17.f_less, Generated.Schemas.v17.s_Less_13), 
+   ("v17._LessOrEqual", Generated.Ctors.v17.f_less_or_equal, Generated.Schemas.v17.s_LessOrEqual_16), 
+   ("v17._Log", Generated.Ctors.v17.f_log, Generated.Schemas.v17.s_Log_13), 
+   ("v17._LogSoftmax", Generated.Ctors.v17.f_log_softmax, Generated.Schemas.v17.s_LogSoftmax_13), 
+   ("v17._Loop", Generated.Ctors.v17.f_loop, Generated.Schemas.v17.s_Loop_16), 
+   ("v17._LpNormalization", Generated.Ctors.v17.f_lp_normalization, Generated.Schemas.v17.s_LpNormalization_1), 
+   ("v18._LpPool", Generated.Ctors.v18.f_lp_pool, Generated.Schemas.v18.s_LpPool_18), 
+   ("v17._MatMul", Generated.Ctors.v17.f_matmul, Generated.Schemas.v17.s_MatMul_13), 
+   ("v17._MatMulInteger", Generated.Ctors.v17.f_matmul_integer, Generated.Schemas.v17.s_MatMulInteger_10), 
+   ("v17._Max", Generated.Ctors.v17.f_max, Generated.Schemas.v17.s_Max_13), 
+   ("v17._MaxPool", Generated.Ctors.v17.f_max_pool, Generated.Schemas.v17.s_MaxPool_12), 
+   ("v17._MaxRoiPool", Generated.Ctors.v17.f_max_roi_pool, Generated.Schemas.v17.s_MaxRoiPool_1), 
+   ("v17._MaxUnpool", Generated.Ctors.v17.f_max_unpool, Generated.Schemas.v17.s_MaxUnpool_11), 
+   ("v17._Mean", Generated.Ctors.v17.f_mean, Generated.Schemas.v17.s_Mean_13), 
+   ("v17._MeanVarianceNormalization", Generated.Ctors.v17.f_mean_variance_normalization, Generated.Schemas.v17.s_MeanVarianceNormalization_13), 
+   ("v17._MelWeightMatrix", Generated.Ctors.v17.f_mel_weight_matrix, Generated.Schemas.v17.s_MelWeightMatrix_17), 
+   ("v17._Min", Generated.Ctors.v17.f_min, Generated.Schemas.v17.s_Min_13), 
+   ("v18._Mish", Generated.Ctors.v18.f_mish, Generated.Schemas.v18.s_Mish_18), 
+   ("v17._Mod", Generated.Ctors.v17.f_mod, Generated.Schemas.v17.s_Mod_13), 
+   ("v17._Mul", Generated.Ctors.v17.f_mul, Generated.Schemas.v17.s_Mul_14), 
+   ("v17._Multinomial", Generated.Ctors.v17.f_multinomial, Generated.Schemas.v17.s_Multinomial_7), 
+   ("v17._Neg", Generated.Ctors.v17.f_neg, Generated.Schemas.v17.s_Neg_13), 
+   ("v17._NegativeLogLikelihoodLoss", Generated.Ctors.v17.f_negative_log_likelihood_loss, Generated.Schemas.v17.s_NegativeLogLikelihoodLoss_13), 
+   ("v17._NonMaxSuppression", Generated.Ctors.v17.f_non_max_suppression, Generated.Schemas.v17.s_NonMaxSuppression_11), 
+   ("v17._NonZero", Generated.Ctors.v17.f_non_zero, Generated.Schemas.v17.s_NonZero_13), 
+   ("v17._Not", Generated.Ctors.v17.f_not_, Generated.Schemas.v17.s_Not_1), 
+   ("v17._OneHot", Generated.Ctors.v17.f_one_hot, Generated.Schemas.v17.s_OneHot_11), 
+   ("v17._Optional", Generated.Ctors.v17.f_optional, Generated.Schemas.v17.s_Optional_15), 
+   ("v18._OptionalGetElement", Generated.Ctors.v18.f_optional_get_element, Generated.Schemas.v18.s_OptionalGetElement_18), 
+   ("v18._OptionalHasElement", Generated.Ctors.v18.f_optional_has_element, Generated.Schemas.v18.s_OptionalHasElement_18), 
+   ("v17._Or", Generated.Ctors.v17.f_or_, Generated.Schemas.v17.s_Or_7), 
+   ("v17._PRelu", Generated.Ctors.v17.f_prelu, Generated.Schemas.v17.s_PRelu_16), 
+   ("v18._Pad", Generated.Ctors.v18.f_pad, Generated.Schemas.v18.s_Pad_18), 
+   ("v17._Pow", Generated.Ctors.v17.f_pow, Generated.Schemas.v17.s_Pow_15), 
+   ("v17._QLinearConv", Generated.Ctors.v17.f_qlinear_conv, Generated.Schemas.v17.s_QLinearConv_10), 
+   ("v17._QLinearMatMul", Generated.Ctors.v17.f_qlinear_matmul, Generated.Schemas.v17.s_QLinearMatMul_10), 
+   ("v17._QuantizeLinear", Generated.Ctors.v17.f_quantize_linear, Generated.Schemas.v17.s_QuantizeLinear_13), 
+   ("v17._RNN", Generated.Ctors.v17.f_rnn, Generated.Schemas.v17.s_RNN_14), 
+   ("v17._RandomNormal", Generated.Ctors.v17.f_random_normal, Generated.Schemas.v17.s_RandomNormal_1), 
+   ("v17._RandomNormalLike", Generated.Ctors.v17.f_random_normal_like, Generated.Schemas.v17.s_RandomNormalLike_1), 
+   ("v17._RandomUniform", Generated.Ctors.v17.f_random_uniform, Generated.Schemas.v17.s_RandomUniform_1), 
+   ("v17._RandomUniformLike", Generated.Ctors.v17.f_random_uniform_like, Generated.Schemas.v17.s_RandomUniformLike_1), 
+   ("v17._Range", Generated.Ctors.v17.f_range, Generated.Schemas.v17.s_Range_11), 
+   ("v17._Reciprocal", Generated.Ctors.v17.f_reciprocal, Generated.Schemas.v17.s_Reciprocal_13), 
+   ("v18._ReduceL1", Generated.Ctors.v18.f_reduce_l1, Generated.Schemas.v18.s_ReduceL1_18), 
+   ("v18._ReduceL2", Generated.Ctors.v18.f_reduce_l2, Generated.Schemas.v18.s_ReduceL2_18), 
+   ("v18._ReduceLogSum", Generated.Ctors.v18.f_reduce_log_sum, Generated.Schemas.v18.s_ReduceLogSum_18), 
+   ("v18._ReduceLogSumExp", Generated.Ctors.v18.f_reduce_log_sum_exp, Generated.Schemas.v18.s_ReduceLogSumExp_18), 
+   ("v18._ReduceMax", Generated.Ctors.v18.f_reduce_max, Generated.Schemas.v18.s_ReduceMax_18), 
+   ("v18._ReduceMean", Generated.Ctors.v18.f_reduce_mean, Generated.Schemas.v18.s_ReduceMean_18), 
+   ("v18._ReduceMin", Generated.Ctors.v18.f_reduce_min, Generated.Schemas.v18.s_ReduceMin_18), 
+   ("v18._ReduceProd", Generated.Ctors.v18.f_reduce_prod, Generated.Schemas.v18.s_ReduceProd_18), 
+   ("v17._ReduceSum", Generated.Ctors.v17.f_reduce_sum, Generated.Schemas.v17.s_ReduceSum_13), 
+   ("v18._ReduceSumSquare", Generated.Ctors.v18.f_reduce_sum_square, Generated.Schemas.v18.s_ReduceSumSquare_18), 
+   ("v17._Relu", Generated.Ctors.v17.f_relu, Generated.Schemas.v17.s_Relu_14), 
+   ("v17._Reshape", Generated.Ctors.v17.f_reshape, Generated.Schemas.v17.s_Reshape_14), 
+   ("v18._Resize", Generated.Ctors.v18.f_resize, Generated.Schemas.v18.s_Resize_18), 
+   ("v17._ReverseSequence", Generated.Ctors.v17.f_reverse_sequence, Generated.Schemas.v17.s_ReverseSequence_10), 
+   ("v17._RoiAlign", Generated.Ctors.v17.f_roi_align, Generated.Schemas.v17.s_RoiAlign_16), 
+   ("v17._Round", Generated.Ctors.v17.f_round, Generated.Schemas.v17.s_Round_11), 
+   ("v17._STFT", Generated.Ctors.v17.f_stft, Generated.Schemas.v17.s_STFT_17), 
+   ("v17._Scan", Generated.Ctors.v17.f_scan, Generated.Schemas.v17.s_Scan_16), 
+   ("v18._ScatterElements", Generated.Ctors.v18.f_scatter_elements, Generated.Schemas.v18.s_ScatterElements_18), 
+   ("v18._ScatterND", Generated.Ctors.v18.f_scatter_nd, Generated.Schemas.v18.s_ScatterND_18), 
+   ("v17._Selu", Generated.Ctors.v17.f_selu, Generated.Schemas.v17.s_Selu_6), 
+   ("v17._SequenceAt", Generated.Ctors.v17.f_sequence_at, Generated.Schemas.v17.s_SequenceAt_11), 
+   ("v17._SequenceConstruct", Generated.Ctors.v17.f_sequence_construct, Generated.Schemas.v17.s_SequenceConstruct_11), 
+   ("v17._SequenceEmpty", Generated.Ctors.v17.f_sequence_empty, Generated.Schemas.v17.s_SequenceEmpty_11), 
+   ("v17._SequenceErase", Generated.Ctors.v17.f_sequence_erase, Generated.Schemas.v17.s_SequenceErase_11), 
+   ("v17._SequenceInsert", Generated.Ctors.v17.f_sequence_insert, Generated.Schemas.v17.s_SequenceInsert_11), 
+   ("v17._SequenceLength", Generated.Ctors.v17.f_sequence_length, Generated.Schemas.v17.s_SequenceLength_11), 
+   ("v17._SequenceMap", Generated.Ctors.v17.f_sequence_map, Generated.Schemas.v17.s_SequenceMap_17), 
+   ("v17._Shape", Generated.Ctors.v17.f_shape, Generated.Schemas.v17.s_Shape_15), 
+   ("v17._Shrink", Generated.Ctors.v17.f_shrink, Generated.Schemas.v17.s_Shrink_9), 
+   ("v17._Sigmoid", Generated.Ctors.v17.f_sigmoid, Generated.Schemas.v17.s_Sigmoid_13), 
+   ("v17._Sign", Generated.Ctors.v17.f_sign, Generated.Schemas.v17.s_Sign_13), 
+   ("v17._Sin", Generated.Ctors.v17.f_sin, Generated.Schemas.v17.s_Sin_7), 
+   ("v17._Sinh", Generated.Ctors.v17.f_sinh, Generated.Schemas.v17.s_Sinh_9), 
+   ("v17._Size", Generated.Ctors.v17.f_size, Generated.Schemas.v17.s_Size_13), 
+   ("v17._Slice", Generated.Ctors.v17.f_slice, Generated.Schemas.v17.s_Slice_13), 
+   ("v17._Softmax", Generated.Ctors.v17.f_softmax, Generated.Schemas.v17.s_Softmax_13), 
+   ("v17._SoftmaxCrossEntropyLoss", Generated.Ctors.v17.f_softmax_cross_entropy_loss, Generated.Schemas.v17.s_SoftmaxCrossEntropyLoss_13), 
+   ("v17._Softplus", Generated.Ctors.v17.f_softplus, Generated.Schemas.v17.s_Softplus_1), 
+   ("v17._Softsign", Generated.Ctors.v17.f_softsign, Generated.Schemas.v17.s_Softsign_1), 
+   ("v17._SpaceToDepth", Generated.Ctors.v17.f_space_to_depth, Generated.Schemas.v17.s_SpaceToDepth_13), 
+   ("v18._Split", Generated.Ctors.v18.f_split, Generated.Schemas.v18.s_Split_18), 
+   ("v17._SplitToSequence", Generated.Ctors.v17.f_split_to_sequence, Generated.Schemas.v17.s_SplitToSequence_11), 
+   ("v17._Sqrt", Generated.Ctors.v17.f_sqrt, Generated.Schemas.v17.s_Sqrt_13), 
+   ("v17._Squeeze", Generated.Ctors.v17.f_squeeze, Generated.Schemas.v17.s_Squeeze_13), 
+   ("v17._StringNormalizer", Generated.Ctors.v17.f_string_normalizer, Generated.Schemas.v17.s_StringNormalizer_10), 
+   ("v17._Sub", Generated.Ctors.v17.f_sub, Generated.Schemas.v17.s_Sub_14), 
+   ("v17._Sum", Generated.Ctors.v17.f_sum, Generated.Schemas.v17.s_Sum_13), 
+   ("v17._Tan", Generated.Ctors.v17.f_tan, Generated.Schemas.v17.s_Tan_7), 
+   ("v17._Tanh", Generated.Ctors.v17.f_tanh, Generated.Schemas.v17.s_Tanh_13), 
+   ("v17._TfIdfVectorizer", Generated.Ctors.v17.f_tf_idf_vectorizer, Generated.Schemas.v17.s_TfIdfVectorizer_9), 
+   ("v17._ThresholdedRelu", Generated.Ctors.v17.f_thresholded_relu, Generated.Schemas.v17.s_ThresholdedRelu_10), 
+   ("v17._Tile", Generated.Ctors.v17.f_tile, Generated.Schemas.v17.s_Tile_13), 
+   ("v17._TopK", Generated.Ctors.v17.f_top_k, Generated.Schemas.v17.s_TopK_11), 
+   ("v17._Transpose", Generated.Ctors.v17.f_transpose, Generated.Schemas.v17.s_Transpose_13), 
+   ("v17._Trilu", Generated.Ctors.v17.f_trilu, Generated.Schemas.v17.s_Trilu_14), 
+   ("v17._Unique", Generated.Ctors.v17.f_unique, Generated.Schemas.v17.s_Unique_11), 
+   ("v17._Unsqueeze", Generated.Ctors.v17.f_unsqueeze, Generated.Schemas.v17.s_Unsqueeze_13), 
+   ("v17._Where", Generated.Ctors.v17.f_where, Generated.Schemas.v17.s_Where_16), 
+   ("v17._Xor", Generated.Ctors.v17.f_xor, Generated.Schemas.v17.s_Xor_7)]
+
+theorem slots_all : allEntries.all slotOK = true :=
+  all_cons slots_v18_Abs (
+  all_cons slots_v18_Acos (
+  all_cons slots_v18_Acosh (
+  all_cons slots_v18_Add (
+  all_cons slots_v18_And (
+  all_cons slots_v18_ArgMax (
+  all_cons slots_v18_ArgMin (
+  all_cons slots_v18_Asin (
+  all_cons slots_v18_Asinh (
+  all_cons slots_v18_Atan (
+  all_cons slots_v18_Atanh (
+  all_cons slots_v18_AveragePool (
+  all_cons slots_v18_BatchNormalization (
+  all_cons slots_v18_Bernoulli (
+  all_cons slots_v18_BitShift (
+  all_cons slots_v18_BitwiseAnd (
+  all_cons slots_v18_BitwiseNot (
+  all_cons slots_v18_BitwiseOr (
+  all_cons slots_v18_BitwiseXor (
+  all_cons slots_v18_BlackmanWindow (
+  all_cons slots_v18_Cast (
+  all_cons slots_v18_CastLike (
+  all_cons slots_v18_Ceil (
+  all_cons slots_v18_Celu (
+  all_cons slots_v18_CenterCropPad (
+  all_cons slots_v18_Clip (
+  all_cons slots_v18_Col2Im (
+  all_cons slots_v18_Compress (
+  all_cons slots_v18_Concat (
+  all_cons slots_v18_ConcatFromSequence (
+  all_cons slots_v18_Constant (
+  all_cons slots_v18_ConstantOfShape (
+  all_cons slots_v18_Conv (
+  all_cons slots_v18_ConvInteger (
+  all_cons slots_v18_ConvTranspose (
+  all_cons slots_v18_Cos (
+  all_cons slots_v18_Cosh (
+  all_cons slots_v18_CumSum (
+  all_cons slots_v18_DFT (
+  all_cons slots_v18_DepthToSpace (
+  all_cons slots_v18_DequantizeLinear (
+  all_cons slots_v18_Det (
+  all_cons slots_v18_Div (
+  all_cons slots_v18_Dropout (
+  all_cons slots_v18_DynamicQuantizeLinear (
+  all_cons slots_v18_Einsum (
+  all_cons slots_v18_Elu (
+  all_cons slots_v18_Equal (
+  all_cons slots_v18_Erf (
+  all_cons slots_v18_Exp (
+  all_cons slots_v18_Expand (
+  all_cons slots_v18_EyeLike (
+  all_cons slots_v18_Flatten (
+  all_cons slots_v18_Floor (
+  all_cons slots_v18_GRU (
+  all_cons slots_v18_Gather (
+  all_cons slots_v18_GatherElements (
+  all_cons slots_v18_GatherND (
+  all_cons slots_v18_Gemm (
+  all_cons slots_v18_GlobalAveragePool (
+  all_cons slots_v18_GlobalLpPool (
+  all_cons slots_v18_GlobalMaxPool (
+  all_cons slots_v18_Greater (
+  all_cons slots_v18_GreaterOrEqual (
+  all_cons slots_v18_GridSample (
+  all_cons slots_v18_GroupNormalization (
+  all_cons slots_v18_HammingWindow (
+  all_cons slots_v18_HannWindow (
+  all_cons slots_v18_HardSigmoid (
+  all_cons slots_v18_HardSwish (
+  all_cons slots_v18_Hardmax (
+  all_cons slots_v18_Identity (
+  all_cons slots_v18_If (
+  all_cons slots_v18_InstanceNormalization (
+  all_cons slots_v18_IsInf (
+  all_cons slots_v18_IsNaN (
+  all_cons slots_v18_LRN (
+  all_cons slots_v18_LSTM (
+  all_cons slots_v18_LayerNormalization (
+  all_cons slots_v18_LeakyRelu (
+  all_cons slots_v18_Less (
+  all_cons slots_v18_LessOrEqual (
+  all_cons slots_v18_Log (
+  all_cons slots_v18_LogSoftmax (
+  all_cons slots_v18_Loop (
+  all_cons slots_v18_LpNormalization (
+  all_cons slots_v18_LpPool (
+  all_cons slots_v18_MatMul (
+  all_cons slots_v18_MatMulInteger (
+  all_cons slots_v18_Max (
+  all_cons slots_v18_MaxPool (
+  all_cons slots_v18_MaxRoiPool (
+  all_cons slots_v18_MaxUnpool (
+  all_cons slots_v18_Mean (
+  all_cons slots_v18_MeanVarianceNormalization (
+  all_cons slots_v18_MelWeightMatrix (
+  all_cons slots_v18_Min (
+  all_cons slots_v18_Mish (
+  all_cons slots_v18_Mod (
+  all_cons slots_v18_Mul (
+  all_cons slots_v18_Multinomial (
+  all_cons slots_v18_Neg (
+  all_cons slots_v18_NegativeLogLikelihoodLoss (
+  all_cons slots_v18_NonMaxSuppression (
+  all_cons slots_v18_NonZero (
+  all_cons slots_v18_Not (
+  all_cons slots_v18_OneHot (
+  all_cons slots_v18_Optional (
+  all_cons slots_v18_OptionalGetElement (
+  all_cons slots_v18_OptionalHasElement (
+  all_cons slots_v18_Or (
+  all_cons slots_v18_PRelu (
+  all_cons slots_v18_Pad (
+  all_cons slots_v18_Pow (
+  all_cons slots_v18_QLinearConv (
+  all_cons slots_v18_QLinearMatMul (
+  all_cons slots_v18_QuantizeLinear (
+  all_cons slots_v18_RNN (
+  all_cons slots_v18_RandomNormal (
+  all_cons slots_v18_RandomNormalLike (
+  all_cons slots_v18_RandomUniform (
+  all_cons slots_v18_RandomUniformLike (
+  all_cons slots_v18_Range (
+  all_cons slots_v18_Reciprocal (
+  all_cons slots_v18_ReduceL1 (
+  all_cons slots_v18_ReduceL2 (
+  all_cons slots_v18_ReduceLogSum (
+  all_cons slots_v18_ReduceLogSumExp (
+  all_cons slots_v18_ReduceMax (
+  all_cons slots_v18_ReduceMean (
+  all_cons slots_v18_ReduceMin (
+  all_cons slots_v18_ReduceProd (
+  all_cons slots_v18_ReduceSum (
+  all_cons slots_v18_ReduceSumSquare (
+  all_cons slots_v18_Relu (
+  all_cons slots_v18_Reshape (
+  all_cons slots_v18_Resize (
+  all_cons slots_v18_ReverseSequence (
+  all_cons slots_v18_RoiAlign (
+  all_cons slots_v18_Round (
+  all_cons slots_v18_STFT (
+  all_cons slots_v18_Scan (
+  all_cons slots_v18_ScatterElements (
+  all_cons slots_v18_ScatterND (
+  all_cons slots_v18_Selu (
+  all_cons slots_v18_SequenceAt (
+  all_cons slots_v18_SequenceConstruct (
+  all_cons slots_v18_SequenceEmpty (
+  all_cons slots_v18_SequenceErase (
+  all_cons slots_v18_SequenceInsert (
+  all_cons slots_v18_SequenceLength (
+  all_cons slots_v18_SequenceMap (
+  all_cons slots_v18_Shape (
+  all_cons slots_v18_Shrink (
+  all_cons slots_v18_Sigmoid (
+  all_cons slots_v18_Sign (
+  all_cons slots_v18_Sin (
+  all_cons slots_v18_Sinh (
+  all_cons slots_v18_Size (
+  all_cons slots_v18_Slice (
+  all_cons slots_v18_Softmax (
+  all_cons slots_v18_SoftmaxCrossEntropyLoss (
+  all_cons slots_v18_Softplus (
+  all_cons slots_v18_Softsign (
+  all_cons slots_v18_SpaceToDepth (
+  all_cons slots_v18_Split (
+  all_cons slots_v18_SplitToSequence (
+  all_cons slots_v18_Sqrt (
+  all_cons slots_v18_Squeeze (
+  all_cons slots_v18_StringNormalizer (
+  all_cons slots_v18_Sub (
+  all_cons slots_v18_Sum (
+  all_cons slots_v18_Tan (
+  all_cons slots_v18_Tanh (
+  all_cons slots_v18_TfIdfVectorizer (
+  all_cons slots_v18_ThresholdedRelu (
+  all_cons slots_v18_Tile (
+  all_cons slots_v18_TopK (
+  all_cons slots_v18_Transpose (
+  all_cons slots_v18_Trilu (
+  all_cons slots_v18_Unique (
+  all_cons slots_v18_Unsqueeze (
+  all_cons slots_v18_Where (
+  all_cons slots_v18_Xor (
+  all_nil))))))))))))))))))))))))))))))))))))))))))))))))))))))))))))))))))))))))))))))))))))))))))))))))))))))))))))))))))))))))))))))))))))))))))))))))))))))))))))))))))))))))))))))))))))))))
+
+theorem table_slots : ∀ e ∈ allEntries, slotOK e = true :=
+  fun e he => List.all_eq_true.mp slots_all e he
 
 /-- pairs with listed deviations (known findings), each with what is excepted -/
 def deviating : List (List String × Entry) :=
